@@ -794,31 +794,6 @@ Definition bad_rsec : Z -> bytes -> Z -> outcome (node * Z) := fun _ _ _ => Fuel
 Definition file_leaf_ok (pol : Z) (h : filehdr) (buf : bytes) : Prop :=
   fbody bad_rsec pol buf = Ok (Some (NFile h buf []), pol).
 
-(* [canon pol n]: n is in the form Assemble writes — leaves that are stable, compressed sections
-   whose buffer is GenSecHeader applied to the encoding of the children, files whose buffer is
-   the regenerated header followed by the joined sections. *)
-Inductive canon (pol : Z) : node -> Prop :=
-| canon_leaf h buf :
-    leaf_ok pol h buf -> leaf_stable h buf -> canon pol (NSec h buf [])
-| canon_comp h buf kids g c :
-    kids <> [] -> Forall (canon pol) kids -> Forall is_sec kids ->
-    s_type h = 2 -> s_gd h = Some g -> zlen (gd_guid g) = 16 -> 0 <= gd_attrs g < 65536 ->
-    Z.land (gd_attrs g) 1 <> 0 -> codec_kind (gd_guid g) <> 0 ->
-    gd_kind g = codec_kind (gd_guid g) ->
-    s_name h = [] -> s_build h = 0 -> s_version h = [] -> s_depex h = None ->
-    enc (codec_kind (gd_guid g)) (join4 [] (map node_buf kids)) = Some c ->
-    zlen c < 4294967000 ->
-    gen_sec_header h c = (h, buf) ->
-    canon pol (NSec h buf kids)
-| canon_file_leaf h buf :
-    file_leaf_ok pol h buf -> f_nvar h = None -> canon pol (NFile h buf [])
-| canon_file h buf kids :
-    kids <> [] -> Forall (canon pol) kids -> Forall is_sec kids ->
-    f_nvar h = None -> supported_file (f_type h) = true -> zlen (f_guid h) = 16 ->
-    zlen (join4 [] (map node_buf kids)) < 4294967000 ->
-    file_regen h (join4 [] (map node_buf kids)) = (h, buf) ->
-    canon pol (NFile h buf kids).
-
 (* ---------- stage 1: sections (any nesting of compressed sections over leaf sections) ---------- *)
 
 Lemma psec_S d pol buf i : psec (S d) pol buf i = sbody (psec d) (pfv d) pol buf i.
@@ -826,51 +801,6 @@ Proof. reflexivity. Qed.
 
 Lemma pfile_S d pol buf : pfile (S d) pol buf = fbody (psec d) pol buf.
 Proof. reflexivity. Qed.
-
-Definition sec_reparses (pol : Z) (n : node) : Prop :=
-  forall d, (height n <= d)%nat -> reparses_sec (psec d) pol n.
-
-Lemma canon_sec_reparses pol n : canon pol n -> is_sec n -> sec_reparses pol n.
-Proof.
-  induction n as [h buf kids IH| | |] using node_ind'; intros Hc Hs; try (destruct Hs).
-  inversion Hc; subst.
-  - (* leaf *)
-    intros d Hd. destruct d as [|d]; [simpl in Hd; lia|].
-    match goal with H : leaf_ok _ _ _ |- _ => pose proof (leaf_reparse pol h buf H) as Hl; destruct H as [Hp _] end.
-    assert (H4 : 4 <= zlen buf).
-    { rewrite section_body_eq in Hp. destruct (zlen buf <? 4) eqn:E; [discriminate|]. lia. }
-    split; [cbn [node_buf]; lia|]. intros rest i. cbn [node_buf].
-    exists (NSec (set_order h i) buf []). rewrite psec_S, Hl. split; [reflexivity|]. split; [reflexivity|].
-    (* s_ext h = zlen buf *)
-    cbn [sec_ext set_order s_ext].
-    rewrite section_body_eq in Hp. destruct (zlen buf <? 4); [discriminate|].
-    destruct (sec_head buf) as [[hl ext]| | |]; cbn [bind] in Hp; try discriminate.
-    destruct (zlen buf <? ext) eqn:Ee; [discriminate|].
-    destruct (ext <? hl) eqn:Ehl; [discriminate|].
-    pose proof (sec_tail_type _ _ _ _ _ _ _ _ _ _ _ _ _ Hp) as (_ & _ & Hext & _ & Hb).
-    rewrite Hext. apply sub0_whole; [lia|lia|symmetry; exact Hb].
-  - (* compressed *)
-    intros d Hd. destruct d as [|d]; [simpl in Hd; lia|].
-    assert (Hkids : Forall (reparses_sec (psec d) pol) kids).
-    { rewrite Forall_forall in *. intros k Hin.
-      match goal with H : forall x, In x kids -> canon pol x |- _ => pose proof (H k Hin) as Hck end.
-      match goal with H : forall x, In x kids -> is_sec x |- _ => pose proof (H k Hin) as Hsk end.
-      apply (IH k Hin Hck Hsk). cbn [height] in Hd. pose proof (height_kids k kids Hin). lia. }
-    match goal with Hg : gen_sec_header h ?c = (h, buf), He : enc _ _ = Some ?c |- _ =>
-      pose proof (fun rest i => sbody_comp (psec d) (pfv d) pol h h g c buf kids rest i
-        ltac:(assumption) ltac:(assumption) ltac:(assumption) ltac:(assumption) ltac:(assumption)
-        ltac:(assumption) He ltac:(assumption) Hg Hkids) as Hsb end.
-    destruct (Hsb [] 0) as (_ & _ & _ & _ & Hge4 & _).
-    split; [cbn [node_buf]; lia|]. intros rest i. cbn [node_buf].
-    destruct (Hsb rest i) as (kids2 & Hparse & Hstrip & Hext & _ & Hgd & _).
-    eexists. rewrite psec_S. split; [exact Hparse|]. split; [|cbn [sec_ext s_ext]; exact Hext].
-    cbn [strip]. rewrite Hstrip. f_equal.
-    unfold set_order. cbn [s_size3 s_type s_ext s_hlen s_gd s_name s_build s_version s_depex].
-    match goal with E1 : s_type h = 2, E2 : s_name h = [], E3 : s_build h = 0, E4 : s_version h = [],
-      E5 : s_depex h = None, E6 : gd_kind g = _ |- _ => rewrite E1, E2, E3, E4, E5, Hgd, E6 end.
-    reflexivity.
-Qed.
-
 
 (* ---------- stage 2: files ---------- *)
 
@@ -1130,7 +1060,8 @@ Proof.
   - cbn [bind andb] in H |- *. apply Tail. exact H.
 Qed.
 
-Lemma file_leaf_ext pol h buf : file_leaf_ok pol h buf -> f_ext h = zlen buf /\ 24 <= zlen buf.
+Lemma file_leaf_ext pol h buf : file_leaf_ok pol h buf ->
+  f_ext h = zlen buf /\ 24 <= zlen buf /\ f_attr h = rd 19 1 buf.
 Proof.
   unfold file_leaf_ok, file_body. cbv zeta. intros H.
   destruct (zlen buf <? 24) eqn:E24; [discriminate|].
@@ -1144,18 +1075,18 @@ Proof.
       else do kp <- sections_loop bad_rsec (Z.to_nat ext + 1) (sub 0 ext buf) pol doff 0;
            let '(kids, pol') := kp in
            Ok (Some (NFile (mkFile g ckh ckf t a s3 st ext doff nv) (sub 0 ext buf) kids), pol'))
-      = Ok (Some (NFile h buf []), pol) -> f_ext h = zlen buf).
+      = Ok (Some (NFile h buf []), pol) -> f_ext h = zlen buf /\ f_attr h = a).
   { intros ext doff g ckh ckf t a s3 st T. destruct (zlen buf <? ext) eqn:Ee; [discriminate|].
     destruct (ext <? doff); [discriminate|].
     match type of T with context [bind ?e _] => destruct e as [nv| | |] end; cbn [bind] in T; try discriminate.
     assert (G : forall kids, Ok (Some (NFile (mkFile g ckh ckf t a s3 st ext doff nv) (sub 0 ext buf) kids), pol)
-                  = Ok (Some (NFile h buf []), pol) -> f_ext h = zlen buf).
-    { intros kids E. injection E as Eh Eb _. subst h. cbn [f_ext]. apply sub0_whole; [lia|lia|exact Eb]. }
+                  = Ok (Some (NFile h buf []), pol) -> f_ext h = zlen buf /\ f_attr h = a).
+    { intros kids E. injection E as Eh Eb _. subst h. cbn [f_ext f_attr]. split; [|reflexivity]. apply sub0_whole; [lia|lia|exact Eb]. }
     destruct (negb (supported_file t)); [exact (G _ T)|].
     destruct (sections_loop bad_rsec (Z.to_nat ext + 1) (sub 0 ext buf) pol doff 0) as [[k p]| | |];
       cbn [bind] in T; try discriminate.
-    injection T as Eh Eb Ek Ep. subst h. cbn [f_ext]. apply sub0_whole; [lia|lia|exact Eb]. }
-  split; [|lia].
+    injection T as Eh Eb Ek Ep. subst h. cbn [f_ext f_attr]. split; [|reflexivity]. apply sub0_whole; [lia|lia|exact Eb]. }
+  cut (f_ext h = zlen buf /\ f_attr h = rd 19 1 buf); [intros [? ?]; repeat split; [assumption|lia|assumption]|].
   destruct (rd 20 3 buf =? 16777215) eqn:Es3.
   - destruct (zlen buf <? 32) eqn:E32.
     + destruct (forallb (fun x => x =? pol) buf); cbn [bind] in H; [|discriminate].
@@ -1172,77 +1103,7 @@ Definition reparses_file (rf : Z -> bytes -> outcome (option node * Z)) (pol : Z
   forall rest, exists k2, rf pol (node_buf k ++ rest) = Ok (Some k2, pol) /\
                           strip k2 = strip k /\ file_ext k2 = zlen (node_buf k).
 
-Lemma canon_file_reparses pol n : canon pol n -> is_file n ->
-  forall d, (height n <= d)%nat -> reparses_file (pfile d) pol n.
-Proof.
-  intros Hc Hf d Hd. destruct n as [| h buf kids | |]; try (destruct Hf).
-  destruct d as [|d]; [simpl in Hd; lia|].
-  inversion Hc; subst.
-  - (* no sections *)
-    match goal with H : file_leaf_ok _ _ _ |- _ =>
-      pose proof (file_leaf_reparse pol h buf H) as Hl; destruct (file_leaf_ext pol h buf H) as [He H24] end.
-    split; [exact H24|]. intros rest. exists (NFile h buf []). rewrite pfile_S, Hl.
-    split; [reflexivity|]. split; [reflexivity|]. exact He.
-  - (* sections *)
-    assert (Hkids : Forall (reparses_sec (psec d) pol) kids).
-    { rewrite Forall_forall in *. intros k Hin.
-      apply (canon_sec_reparses pol k); auto.
-      cbn [height] in Hd. pose proof (height_kids k kids Hin). lia. }
-    match goal with Hr : file_regen h _ = (h, buf) |- _ =>
-      pose proof (fun rest => fbody_file (psec d) pol h buf kids rest ltac:(assumption) ltac:(assumption)
-                                ltac:(assumption) ltac:(assumption) Hr Hkids) as Hfb end.
-    destruct (Hfb []) as (_ & _ & _ & _ & _ & H24).
-    split; [exact H24|]. intros rest. cbn [node_buf].
-    destruct (Hfb rest) as (kids2 & o & Hparse & Hstrip & Hext & _).
-    eexists. rewrite pfile_S. split; [exact Hparse|]. split; [|cbn [file_ext set_fdo f_ext]; exact Hext].
-    cbn [strip]. rewrite Hstrip. reflexivity.
-Qed.
-
 (* ---------- Assemble on canonical trees: a fixed point ---------- *)
-
-Lemma asml_fixed kids : Forall (fun k => forall st, exists st', asm' k st = Ok (k, st')) kids ->
-  forall st, exists st', asml kids st = Ok (kids, st').
-Proof.
-  intros H. induction H as [|k r Hk Hr IH]; intros st; cbn [asm_elems].
-  - eauto.
-  - destruct (Hk st) as (st1 & E1). rewrite E1. cbn [bind].
-    destruct (IH st1) as (st2 & E2). rewrite E2. cbn [bind]. eauto.
-Qed.
-
-Theorem canon_asm_fixed pol n : canon pol n -> forall st, exists st', asm' n st = Ok (n, st').
-Proof.
-  induction n as [h buf kids IH|h buf kids IH| |] using node_ind'; intros Hc st; inversion Hc; subst.
-  - (* leaf section *)
-    rewrite asm_sec. cbn [asm_elems bind]. apply leaf_stable_asm. assumption.
-  - (* compressed section *)
-    rewrite asm_sec.
-    assert (Hk : Forall (fun k => forall st, exists st', asm' k st = Ok (k, st')) kids).
-    { rewrite Forall_forall in *. intros k Hin. apply IH; auto. }
-    destruct (asml_fixed kids Hk st) as ([p f] & E). rewrite E. cbn [bind].
-    unfold sec_asm. destruct kids as [|k0 r]; [congruence|].
-    match goal with Ht : s_type h = 2, Hg : s_gd h = Some g, Hb : Z.land _ 1 <> 0, Hk0 : codec_kind _ <> 0,
-      He : enc _ _ = Some _, Hgen : gen_sec_header h _ = _ |- _ =>
-      rewrite Ht, Hg; change (2 =? 2) with true; cbv iota;
-      replace (Z.land (gd_attrs g) 1 =? 0) with false by lia; cbn [negb];
-      replace (codec_kind (gd_guid g) =? 0) with false by lia;
-      rewrite He; cbn [bind]; rewrite Hgen end.
-    eauto.
-  - (* file without sections *)
-    rewrite asm_file. cbn [asm_elems bind]. unfold file_asm. destruct st as [p f].
-    match goal with H : f_nvar h = None |- _ => rewrite H end. eauto.
-  - (* file with sections *)
-    rewrite asm_file.
-    assert (Hk : Forall (fun k => forall st, exists st', asm' k st = Ok (k, st')) kids).
-    { rewrite Forall_forall in *. intros k Hin. apply IH; auto. }
-    destruct (asml_fixed kids Hk st) as ([p f] & E). rewrite E. cbn [bind].
-    unfold file_asm. destruct kids as [|k0 r]; [congruence|].
-    match goal with H : f_nvar h = None, Hr : file_regen h _ = _ |- _ =>
-      rewrite H; unfold file_regen in Hr;
-      destruct (set_size (f_attr h) (24 + zlen (join4 [] (map node_buf (k0 :: r)))) true) as [ext attr];
-      rewrite Hr end.
-    eauto.
-Qed.
-
 
 (* ---------- Assemble does not look at the metadata [strip] forgets ---------- *)
 
@@ -1338,6 +1199,14 @@ Definition vol_finish (pol : Z) (ffs3 : bool) (h : volhdr) (b1 : bytes) (len : Z
       end
     end.
 
+(* the new length and first block count of a volume that has to grow (uint64 arithmetic; only the
+   first block-map entry is resized) *)
+Definition resize_len (newlen s : Z) (rest : list (Z * Z)) : Z * Z :=
+  let rs := fold_left (fun a b => (a + fst b * snd b) mod U64) rest 0 in
+  let need := if rs <? newlen then newlen - rs else 0 in
+  let l := (rs + align_go need s) mod U64 in
+  (l, (((l - rs) mod U64) / s) mod U32).
+
 Lemma asm_vol_eq pol ffs3 h buf files :
   asm_vol pol ffs3 h buf files =
   if (match files with [] => true | _ => false end) && negb (supported_fv (v_guid h)) then Ok (h, buf) else
@@ -1354,7 +1223,7 @@ Lemma asm_vol_eq pol ffs3 h buf files :
          | [] => Panic 203
          | (c, s) :: rest =>
            if s =? 0 then Err E_BLOCK0 else
-           Ok (align_go (zlen b1) s, ((align_go (zlen b1) s / s) mod U32, s) :: rest)
+           Ok (fst (resize_len (zlen b1) s rest), (snd (resize_len (zlen b1) s rest), s) :: rest)
          end
        else Ok (v_length h, v_blocks h));
     let '(len, blocks) := lb in vol_finish pol ffs3 h b1 len blocks
@@ -1565,27 +1434,6 @@ Proof using Type. clear_sec.
     + intros H. inversion H; subst. split; [assumption|apply IH; assumption].
 Qed.
 
-(* [wf pol t]: the shape of a tree obtained by parsing an image of the reference grammar with
-   compressed sections: leaf sections that parse to themselves and that Assemble leaves alone,
-   GUID-defined sections decoded by a known codec around further such sections, files that hold
-   such sections, files without sections. *)
-Inductive wf (pol : Z) : node -> Prop :=
-| wf_leaf h buf :
-    leaf_ok pol h buf -> leaf_stable h buf -> wf pol (NSec h buf [])
-| wf_comp h buf kids g :
-    kids <> [] -> Forall (wf pol) kids -> Forall is_sec kids ->
-    s_type h = 2 -> s_gd h = Some g -> zlen (gd_guid g) = 16 -> 0 <= gd_attrs g < 65536 ->
-    Z.land (gd_attrs g) 1 <> 0 -> codec_kind (gd_guid g) <> 0 ->
-    gd_kind g = codec_kind (gd_guid g) ->
-    s_name h = [] -> s_build h = 0 -> s_version h = [] -> s_depex h = None ->
-    wf pol (NSec h buf kids)
-| wf_file_leaf h buf :
-    file_leaf_ok pol h buf -> f_nvar h = None -> wf pol (NFile h buf [])
-| wf_file h buf kids :
-    kids <> [] -> Forall (wf pol) kids -> Forall is_sec kids ->
-    f_nvar h = None -> supported_file (f_type h) = true -> zlen (f_guid h) = 16 ->
-    wf pol (NFile h buf kids).
-
 Lemma asml_inv : forall kids st kids' st', asml kids st = Ok (kids', st') ->
   Forall2 (fun k k' => exists s s', asm' k s = Ok (k', s')) kids kids'.
 Proof using Type. clear_sec.
@@ -1609,111 +1457,6 @@ Definition same_kind (a b : node) : Prop :=
   | _, _ => False
   end.
 
-Lemma kids_canon pol kids kids' :
-  Forall2 (fun k k' => exists s s', asm' k s = Ok (k', s')) kids kids' ->
-  Forall (fun t => wf pol t -> forall st t1 st1, asm' t st = Ok (t1, st1) -> small t1 ->
-                   canon pol t1 /\ deep t1 = deep t /\ same_kind t t1) kids ->
-  Forall (wf pol) kids -> Forall is_sec kids -> Forall small kids' ->
-  Forall (canon pol) kids' /\ Forall is_sec kids' /\ map deep kids' = map deep kids.
-Proof.
-  induction 1 as [|k k' r r' (s & s' & Hk) Hr IHr]; intros IH Hwk Hsec Hsk.
-  - repeat split; constructor.
-  - inversion IH; subst. inversion Hwk; subst. inversion Hsec; subst. inversion Hsk; subst.
-    match goal with HP : wf pol k -> _ |- _ =>
-      destruct (HP ltac:(assumption) s k' s' Hk ltac:(assumption)) as (C & Dk & K) end.
-    destruct (IHr ltac:(assumption) ltac:(assumption) ltac:(assumption) ltac:(assumption)) as (C' & S' & D').
-    repeat split.
-    + constructor; assumption.
-    + constructor; [|assumption].
-      destruct k, k'; try destruct K; try (match goal with X : is_sec _ |- _ => destruct X end); exact I.
-    + cbn [map]. rewrite Dk, D'. reflexivity.
-Qed.
-
-(* Assemble turns a well-formed tree into a canonical one with the same decompressed content *)
-Theorem asm_canon pol : forall t, wf pol t -> forall st t1 st1, asm' t st = Ok (t1, st1) -> small t1 ->
-  canon pol t1 /\ deep t1 = deep t /\ same_kind t t1.
-Proof.
-  induction t as [h buf kids IH|h buf kids IH| |] using node_ind'; intros Hw st t1 st1 Ha Hs; inversion Hw; subst.
-  - (* leaf section *)
-    rewrite asm_sec in Ha. cbn [asm_elems bind] in Ha.
-    match goal with H : leaf_stable h buf |- _ => destruct (leaf_stable_asm h buf st H) as (st' & E) end.
-    rewrite E in Ha. injection Ha as <- _. split; [constructor; assumption|]. split; reflexivity.
-  - (* compressed section *)
-    rewrite asm_sec in Ha.
-    destruct (asml kids st) as [[kids' st2]| | |] eqn:El; cbn [bind] in Ha; try discriminate.
-    pose proof (asml_inv _ _ _ _ El) as F2.
-    unfold sec_asm in Ha. destruct st2 as [p f].
-    destruct kids' as [|k0' r'].
-    { inversion F2; subst. congruence. }
-    match goal with Ht : s_type h = 2, Hg : s_gd h = Some g, Hb : Z.land _ 1 <> 0, Hk0 : codec_kind _ <> 0 |- _ =>
-      rewrite Ht, Hg in Ha; change (2 =? 2) with true in Ha; cbv iota in Ha;
-      replace (Z.land (gd_attrs g) 1 =? 0) with false in Ha by lia; cbn [negb] in Ha;
-      replace (codec_kind (gd_guid g) =? 0) with false in Ha by lia end.
-    destruct (enc (codec_kind (gd_guid g)) (join4 [] (map node_buf (k0' :: r')))) as [c|] eqn:Ec;
-      cbn [bind] in Ha; [|discriminate].
-    destruct (gen_sec_header h c) as [h' nb] eqn:Eg. injection Ha as <- _.
-    cbn [small] in Hs. destruct Hs as [Hsz Hsk]. apply (proj1 (small_all (k0' :: r'))) in Hsk.
-    (* the children *)
-    assert (Hkids : Forall (canon pol) (k0' :: r') /\ Forall is_sec (k0' :: r') /\
-                    map deep (k0' :: r') = map deep kids)
-      by (apply (kids_canon pol kids (k0' :: r') F2 IH); assumption).
-    destruct Hkids as (Hc' & Hs' & Hd').
-    pose proof (f_equal fst Eg) as Eh'. cbn [fst] in Eh'.
-    assert (Hcz : zlen c < SZ).
-    { pose proof (f_equal snd Eg) as Enb. cbn [snd] in Enb. unfold gen_sec_header in Enb. cbn [snd] in Enb.
-      rewrite <- Enb in Hsz. rewrite !zlen_app in Hsz.
-      match type of Hsz with ?a + (?b + _) < _ => pose proof (zlen_nonneg (A:=Z)) as Hnn end.
-      repeat match type of Hsz with context [zlen ?x] => lazymatch x with c => fail | _ => let H := fresh in pose proof (zlen_nonneg x) as H; generalize dependent (zlen x); intros end end.
-      lia. }
-    split; [|split; [|exact I]].
-    + apply (canon_comp pol h' nb (k0' :: r') (mkGd (gd_guid g) (gd_dataoff (match s_gd h' with Some x => x | None => g end)) (gd_attrs g) (gd_kind g)) c);
-        try assumption; try discriminate; try (rewrite <- Eh'; unfold gen_sec_header; cbn [fst s_type s_name s_build s_version s_depex]; assumption).
-      * rewrite <- Eh'. unfold gen_sec_header. cbn [fst s_gd].
-        match goal with Hg : s_gd h = Some g |- _ => rewrite Hg end. reflexivity.
-      * rewrite <- Eh'. rewrite gen_sec_header_idem. rewrite Eg. reflexivity.
-    + cbn [deep]. destruct kids as [|k0 r]; [congruence|].
-      rewrite Hd'. f_equal. f_equal.
-      * rewrite <- Eh'. reflexivity.
-      * rewrite <- Eh'. unfold gen_sec_header. cbn [fst s_gd].
-        match goal with Hg : s_gd h = Some g |- _ => rewrite Hg end. reflexivity.
-  - (* file without sections *)
-    rewrite asm_file in Ha. cbn [asm_elems bind] in Ha. unfold file_asm in Ha. destruct st as [p f].
-    match goal with H : f_nvar h = None |- _ => rewrite H in Ha end. injection Ha as <- _.
-    split; [constructor; assumption|]. split; reflexivity.
-  - (* file with sections *)
-    rewrite asm_file in Ha.
-    destruct (asml kids st) as [[kids' st2]| | |] eqn:El; cbn [bind] in Ha; try discriminate.
-    pose proof (asml_inv _ _ _ _ El) as F2.
-    unfold file_asm in Ha. destruct st2 as [p f].
-    destruct kids' as [|k0' r'].
-    { inversion F2; subst. congruence. }
-    match goal with H : f_nvar h = None |- _ => rewrite H in Ha end.
-    pose proof (file_regen_idem h (join4 [] (map node_buf (k0' :: r'))) ltac:(assumption)) as Hidem.
-    unfold file_regen in Hidem at 2 3.
-    destruct (set_size (f_attr h) (24 + zlen (join4 [] (map node_buf (k0' :: r')))) true) as [ext attr] eqn:Ess.
-    destruct (checksum_and_assemble h ext attr (join4 [] (map node_buf (k0' :: r')))) as [h' nb] eqn:Eck.
-    injection Ha as <- _. cbn [fst] in Hidem.
-    cbn [small] in Hs. destruct Hs as [Hsz Hsk]. apply (proj1 (small_all (k0' :: r'))) in Hsk.
-    assert (Hkids : Forall (canon pol) (k0' :: r') /\ Forall is_sec (k0' :: r') /\
-                    map deep (k0' :: r') = map deep kids)
-      by (apply (kids_canon pol kids (k0' :: r') F2 IH); assumption).
-    destruct Hkids as (Hc' & Hs' & Hd').
-    destruct (cka_fields h ext attr (join4 [] (map node_buf (k0' :: r')))) as (Eg & Et & Ea & Est & _ & _ & _ & En & _).
-    rewrite Eck in Eg, Et, Ea, Est, En. cbn [fst] in Eg, Et, Ea, Est, En.
-    assert (Hdz : zlen (join4 [] (map node_buf (k0' :: r'))) < SZ).
-    { pose proof (f_equal snd Eck) as Enb. cbn [snd] in Enb. unfold checksum_and_assemble in Enb. cbn [snd] in Enb.
-      rewrite <- Enb in Hsz. rewrite zlen_app in Hsz.
-      match type of Hsz with zlen ?x + _ < _ => pose proof (zlen_nonneg x) end. lia. }
-    split; [|split; [|exact I]].
-    + apply canon_file; try assumption; try discriminate; try congruence.
-    + cbn [deep]. destruct kids as [|k0 r]; [congruence|].
-      rewrite Hd'. f_equal. rewrite Eg, Et, Est, Ea.
-      assert (Hattr : attr = set_large (f_attr h) (16777215 <=? 24 + zlen (join4 [] (map node_buf (k0' :: r'))))).
-      { unfold set_size in Ess. destruct (16777215 <=? _); injection Ess as _ <-; reflexivity. }
-      rewrite Hattr, land_set_large. reflexivity.
-Qed.
-
-
 (* ---------- the property, for sections and files ---------- *)
 
 Lemma same_kind_sec a b : same_kind a b -> is_sec a -> is_sec b.
@@ -1721,52 +1464,6 @@ Proof using Type. clear_sec. destruct a, b; simpl; tauto. Qed.
 
 Lemma same_kind_file a b : same_kind a b -> is_file a -> is_file b.
 Proof using Type. clear_sec. destruct a, b; simpl; tauto. Qed.
-
-Lemma second_save pol t1 t2 : canon pol t1 -> strip t2 = strip t1 ->
-  forall st, exists t3 st3, asm' t2 st = Ok (t3, st3) /\ node_buf t3 = node_buf t1.
-Proof.
-  intros Hc Hs st. destruct (canon_asm_fixed pol t1 Hc st) as (s1 & E1).
-  destruct (asm_same_bufs t1 t2 st t1 s1 (eq_sym Hs) E1) as (rb & E2 & E3).
-  exists rb, s1. split; [exact E2|]. rewrite <- (node_buf_strip rb), E3. apply node_buf_strip.
-Qed.
-
-(* Stage 1 (sections): save a well-formed section tree, parse the bytes that were written (in any
-   context [rest], at any index): the decompressed tree is the one we started from, and saving
-   the re-parsed tree writes the same bytes again. *)
-Theorem sec_preserved_and_fixed pol t : wf pol t -> is_sec t ->
-  forall st t1 st1, asm' t st = Ok (t1, st1) -> small t1 ->
-  forall d rest i, (height t1 <= d)%nat ->
-  exists t2, psec d pol (node_buf t1 ++ rest) i = Ok (t2, pol) /\
-             deep t2 = deep t /\
-             forall st', exists t3 st3, asm' t2 st' = Ok (t3, st3) /\ node_buf t3 = node_buf t1.
-Proof.
-  intros Hw Hs st t1 st1 Ha Hsm d rest i Hd.
-  destruct (asm_canon pol t Hw st t1 st1 Ha Hsm) as (Hc & Hdeep & Hk).
-  pose proof (canon_sec_reparses pol t1 Hc (same_kind_sec _ _ Hk Hs) d Hd) as [_ Hr].
-  destruct (Hr rest i) as (t2 & Hp & Hst & _).
-  exists t2. split; [exact Hp|]. split.
-  - rewrite (strip_deep t2 t1 Hst). exact Hdeep.
-  - apply (second_save pol t1 t2 Hc Hst).
-Qed.
-
-(* Stage 2 (files) *)
-Theorem file_preserved_and_fixed pol t : wf pol t -> is_file t ->
-  forall st t1 st1, asm' t st = Ok (t1, st1) -> small t1 ->
-  forall d rest, (height t1 <= d)%nat ->
-  exists t2, pfile d pol (node_buf t1 ++ rest) = Ok (Some t2, pol) /\
-             deep t2 = deep t /\
-             forall st', exists t3 st3, asm' t2 st' = Ok (t3, st3) /\ node_buf t3 = node_buf t1.
-Proof.
-  intros Hw Hs st t1 st1 Ha Hsm d rest Hd.
-  destruct (asm_canon pol t Hw st t1 st1 Ha Hsm) as (Hc & Hdeep & Hk).
-  pose proof (canon_file_reparses pol t1 Hc (same_kind_file _ _ Hk Hs) d Hd) as [_ Hr].
-  destruct (Hr rest) as (t2 & Hp & Hst & _).
-  exists t2. split; [exact Hp|]. split.
-  - rewrite (strip_deep t2 t1 Hst). exact Hdeep.
-  - apply (second_save pol t1 t2 Hc Hst).
-Qed.
-
-
 
 (* the base case spelt out: one compressed section around leaf sections *)
 Lemma leaf_reparses pol h buf : leaf_ok pol h buf ->
@@ -1990,12 +1687,13 @@ Theorem nested_volume_grows pol ffs3 h buf files h' nb c s rest hdr b1 :
   place_files pol None hdr (v_dataoff h) files = Ok b1 ->
   v_length h < zlen b1 ->
   asm_vol pol ffs3 h buf files = Ok (h', nb) ->
-  let len := align_go (zlen b1) s in
-  v_length h' = len /\ v_blocks h' = ((len / s) mod U32, s) :: rest /\
+  let len := fst (resize_len (zlen b1) s rest) in
+  let cnt := snd (resize_len (zlen b1) s rest) in
+  v_length h' = len /\ v_blocks h' = (cnt, s) :: rest /\
   zlen nb = Z.max (zlen b1) len /\
-  sub 32 8 nb = le_enc 8 len /\ sub 56 4 nb = le_enc 4 ((len / s) mod U32).
+  sub 32 8 nb = le_enc 8 len /\ sub 56 4 nb = le_enc 4 cnt.
 Proof using Type. clear_sec.
-  intros Hne Hres Hbl Hsl Hpl Hgrow H. cbv zeta. unfold asm_vol in H.
+  intros Hne Hres Hbl Hsl Hpl Hgrow H. cbv zeta. rewrite asm_vol_eq in H.
   destruct files as [|f0 fr]; [congruence|]. cbn [andb] in H.
   destruct (v_length h <? zlen buf); [discriminate|].
   rewrite Hbl in H.
@@ -2004,7 +1702,8 @@ Proof using Type. clear_sec.
   rewrite Hsl, Hres in H. cbn [of_opt bind] in H. rewrite Hpl in H. cbn [bind] in H.
   replace (v_length h <? zlen b1) with true in H by lia. cbn [negb andb] in H.
   destruct (s =? 0); [discriminate|]. cbn [bind] in H.
-  set (len := align_go (zlen b1) s) in *.
+  set (len := fst (resize_len (zlen b1) s rest)) in *. set (cnt := snd (resize_len (zlen b1) s rest)) in *.
+  unfold vol_finish in H. cbv zeta in H.
   set (b2 := if zlen b1 <? len then b1 ++ zrepeat pol (len - zlen b1) else b1) in *.
   assert (Z2 : zlen b2 = Z.max (zlen b1) len).
   { unfold b2. destruct (zlen b1 <? len) eqn:E; [rewrite zlen_app, zlen_zrepeat by lia|]; lia. }
@@ -2016,7 +1715,6 @@ Proof using Type. clear_sec.
   { unfold b4. destruct (ffs3 && bytes_eqb (v_guid h) FFS2); [|reflexivity].
     apply zlen_splice; [lia|change (zlen FFS3) with 16; lia]. }
   destruct (zlen b4 <? 60) eqn:E60; [discriminate|].
-  set (cnt := (len / s) mod U32) in *.
   set (b5 := splice 56 (le_enc 4 cnt) b4) in *.
   assert (Z5 : zlen b5 = zlen b4) by (unfold b5; apply zlen_splice; rewrite ?le4; lia).
   set (b6 := splice 50 [0; 0] b5) in *.
@@ -2104,47 +1802,6 @@ Proof using Type. clear_sec.
 Qed.
 
 (* ---------- the two halves of the property, separately ---------- *)
-
-Theorem file_semantic_preservation pol t : wf pol t -> is_file t ->
-  forall st t1 st1, asm' t st = Ok (t1, st1) -> small t1 ->
-  forall d rest, (height t1 <= d)%nat ->
-  exists t2, pfile d pol (node_buf t1 ++ rest) = Ok (Some t2, pol) /\ deep t2 = deep t.
-Proof.
-  intros Hw Hf st t1 st1 Ha Hs d rest Hd.
-  destruct (file_preserved_and_fixed pol t Hw Hf st t1 st1 Ha Hs d rest Hd) as (t2 & H1 & H2 & _). eauto.
-Qed.
-
-Theorem file_save_fixed_point pol t : wf pol t -> is_file t ->
-  forall st t1 st1, asm' t st = Ok (t1, st1) -> small t1 ->
-  forall d rest t2, (height t1 <= d)%nat ->
-  pfile d pol (node_buf t1 ++ rest) = Ok (Some t2, pol) ->
-  forall st', exists t3 st3, asm' t2 st' = Ok (t3, st3) /\ node_buf t3 = node_buf t1.
-Proof.
-  intros Hw Hf st t1 st1 Ha Hs d rest t2 Hd Hp.
-  destruct (file_preserved_and_fixed pol t Hw Hf st t1 st1 Ha Hs d rest Hd) as (t2' & H1 & _ & H3).
-  rewrite H1 in Hp. injection Hp as <-. exact H3.
-Qed.
-
-Theorem sec_semantic_preservation pol t : wf pol t -> is_sec t ->
-  forall st t1 st1, asm' t st = Ok (t1, st1) -> small t1 ->
-  forall d rest i, (height t1 <= d)%nat ->
-  exists t2, psec d pol (node_buf t1 ++ rest) i = Ok (t2, pol) /\ deep t2 = deep t.
-Proof.
-  intros Hw Hf st t1 st1 Ha Hs d rest i Hd.
-  destruct (sec_preserved_and_fixed pol t Hw Hf st t1 st1 Ha Hs d rest i Hd) as (t2 & H1 & H2 & _). eauto.
-Qed.
-
-Theorem sec_save_fixed_point pol t : wf pol t -> is_sec t ->
-  forall st t1 st1, asm' t st = Ok (t1, st1) -> small t1 ->
-  forall d rest i t2, (height t1 <= d)%nat ->
-  psec d pol (node_buf t1 ++ rest) i = Ok (t2, pol) ->
-  forall st', exists t3 st3, asm' t2 st' = Ok (t3, st3) /\ node_buf t3 = node_buf t1.
-Proof.
-  intros Hw Hf st t1 st1 Ha Hs d rest i t2 Hd Hp.
-  destruct (sec_preserved_and_fixed pol t Hw Hf st t1 st1 Ha Hs d rest i Hd) as (t2' & H1 & _ & H3).
-  rewrite H1 in Hp. injection Hp as <-. exact H3.
-Qed.
-
 
 (* ---------- FV-image sections are transparent ---------- *)
 
@@ -2491,7 +2148,7 @@ Qed.
 
 (* Assemble of a volume after the files have been placed in the reference layout: the bytes are the
    reference layout again, with the new length, block count, file-system GUID and checksum *)
-Lemma vol_finish_ref ffs3 p g len0 ck0 count0 off rz fs F len' count' :
+Lemma vol_finish_ref ffs3 p g len0 ckr ck0 count0 off rz fs F len' count' :
   vp_ok p -> zlen g = 16 ->
   let D := vp_D p in
   let b1 := (fv_header (vp_zero p) g len0 (vp_attrs p) ck0 (vp_eo p) (vp_reserved p) (vp_rev p) count0
@@ -2500,8 +2157,8 @@ Lemma vol_finish_ref ffs3 p g len0 ck0 count0 off rz fs F len' count' :
   let g' := if ffs3 && bytes_eqb g FFS2 then FFS3 else g in
   let free' := len' - D - zlen (flay F) in
   0 <= free' /\
-  vol_finish 255 ffs3 (vp_hdr p g len0 ck0 count0 off rz fs) b1 len' ((count', vp_bsize p) :: vp_more p) =
-    Ok (vp_hdr p g' len' ck0 count' off rz ((len' - align8 (zlen b1)) mod U64),
+  vol_finish 255 ffs3 (vp_hdr p g len0 ckr count0 off rz fs) b1 len' ((count', vp_bsize p) :: vp_more p) =
+    Ok (vp_hdr p g' len' ckr count' off rz (free' mod U64),
         vp_bytes p g' count' F free').
 Proof using Type. clear_sec.
   intros Hp Lg D b1 Hle Hm8 g' free'.
@@ -2561,6 +2218,7 @@ Proof using Type. clear_sec.
   replace (sub 0 HL (hdrz ++ tail)) with hdrz by (symmetry; apply sub_app_here; apply Lh2).
   rewrite Hev. cbn [negb]. cbv iota.
   unfold hdrz. rewrite hdr_splice_ck by assumption.
+  rewrite Hal. replace (len' - (D + zlen (flay F))) with free' by (unfold free'; lia).
   f_equal. f_equal.
   unfold vol_bytes_x. fold HL.
   replace (HL + zlen ext + zlen (flay F) + free') with len' by (unfold free', D; lia).
@@ -2577,10 +2235,21 @@ Proof using Type. clear_sec.
   rewrite Dm. rewrite Z.add_0_r. rewrite <- Z.mul_assoc. rewrite Z.mul_comm. apply Z.mod_mul. lia.
 Qed.
 
+Lemma resize_single newlen k : 0 <= k < 64 -> 0 < newlen -> newlen + 2 ^ k <= 2 ^ 64 ->
+  resize_len newlen (2 ^ k) [] = (align_go newlen (2 ^ k), (align_go newlen (2 ^ k) / 2 ^ k) mod U32).
+Proof using Type. clear_sec.
+  intros Hk Hn Hb. destruct (align_go_pow2 newlen k Hk ltac:(lia) Hb) as (Eal & Bal & _).
+  unfold resize_len. cbn [fold_left]. replace (0 <? newlen) with true by lia.
+  rewrite Z.sub_0_r, Z.add_0_l.
+  assert (Hr : align_go newlen (2 ^ k) mod U64 = align_go newlen (2 ^ k)).
+  { apply Z.mod_small. rewrite Eal. unfold U64. lia. }
+  rewrite Hr, Z.sub_0_r, Hr. reflexivity.
+Qed.
+
 (* Assemble of a reference-layout volume whose files have been re-assembled: the new volume is in the
    reference layout again; it keeps its length when the files fit, and a nested volume grows to whole
    blocks when they do not *)
-Lemma asm_vol_ref ffs3 p g len0 ck0 count0 off rz fs buf kids :
+Lemma asm_vol_ref ffs3 p g len0 ckr ck0 count0 off rz fs buf kids :
   vp_ok p -> (g = FFS2 \/ g = FFS3) -> kids <> [] -> 0 <= count0 < 2 ^ 32 ->
   let D := vp_D p in
   let F := map node_buf kids in
@@ -2591,12 +2260,14 @@ Lemma asm_vol_ref ffs3 p g len0 ck0 count0 off rz fs buf kids :
   map node_attr kids = map (rd 19 1) F ->
   let newlen := D + zlen (play D F) in
   (newlen <= len0 /\ len0 mod 8 = 0 \/
-   rz = true /\ len0 < newlen /\ exists k, 3 <= k < 64 /\ vp_bsize p = 2 ^ k /\ newlen + 2 ^ k <= 2 ^ 64) ->
+   rz = true /\ len0 < newlen /\ vp_more p = [] /\
+   exists k, 3 <= k < 64 /\ vp_bsize p = 2 ^ k /\ newlen + 2 ^ k <= 2 ^ 64) ->
   let g' := if ffs3 && bytes_eqb g FFS2 then FFS3 else g in
-  exists len' count' free' fs',
-    asm_vol 255 ffs3 (vp_hdr p g len0 ck0 count0 off rz fs) buf kids =
-      Ok (vp_hdr p g' len' ck0 count' off rz fs', vp_bytes p g' count' F free') /\
-    0 <= free' /\ 0 <= count' < 2 ^ 32 /\ len' = D + zlen (flay F) + free' /\ len0 <= len' /\
+  exists len' count' free',
+    asm_vol 255 ffs3 (vp_hdr p g len0 ckr count0 off rz fs) buf kids =
+      Ok (vp_hdr p g' len' ckr count' off rz (free' mod U64), vp_bytes p g' count' F free') /\
+    (newlen <= len0 -> len' = len0 /\ count' = count0) /\
+    0 <= free' /\ 0 <= count' < 2 ^ 32 /\ len' = D + zlen (flay F) + free' /\ len0 <= len' /\ len' mod 8 = 0 /\
     (len' = len0 \/ (rz = true /\ len' = align newlen (vp_bsize p) /\ count' = (len' / vp_bsize p) mod U32)).
 Proof using Type. clear_sec.
   intros Hp Hg Hne Hc0 D F Hsub Hbuf Hpos Hal Hattr newlen Hcase g'.
@@ -2608,7 +2279,7 @@ Proof using Type. clear_sec.
                          (vp_bsize p) (vp_more p)) in *.
   assert (LP : zlen (hdr0 ++ vp_ext p) = D).
   { unfold hdr0. rewrite zlen_app, zlen_fv_header by (try apply Hp; assumption). reflexivity. }
-  rewrite asm_vol_eq. set (h := vp_hdr p g len0 ck0 count0 off rz fs).
+  rewrite asm_vol_eq. set (h := vp_hdr p g len0 ckr count0 off rz fs).
   change (v_guid h) with g. change (v_length h) with len0.
   change (v_blocks h) with ((count0, vp_bsize p) :: vp_more p). change (v_dataoff h) with D.
   change (v_hdrlen h) with (fv_hlen (vp_more p)). change (v_resizable h) with rz. rewrite Sg.
@@ -2627,34 +2298,974 @@ Proof using Type. clear_sec.
   set (b1 := (hdr0 ++ vp_ext p) ++ play D F).
   assert (Lb1 : zlen b1 = newlen) by (unfold b1, newlen; rewrite zlen_app, LP; reflexivity).
   pose proof (zlen_nonneg (play D F)) as Hpl.
-  destruct Hcase as [[Hfit Hm8]|(Hrz & Hgrow & k & Hk & Hbs & Hbound)].
+  destruct Hcase as [[Hfit Hm8]|(Hrz & Hgrow & Hmr & k & Hk & Hbs & Hbound)].
   - (* the files fit *)
     replace ((len0 <? zlen b1) && negb rz) with false by lia.
     replace (len0 <? zlen b1) with false by lia. cbn [bind].
-    destruct (vol_finish_ref ffs3 p g len0 ck0 count0 off rz fs F len0 count0 Hp Lg ltac:(fold D; fold hdr0; fold b1; lia) Hm8)
+    destruct (vol_finish_ref ffs3 p g len0 ckr ck0 count0 off rz fs F len0 count0 Hp Lg ltac:(fold D; fold hdr0; fold b1; lia) Hm8)
       as (Hfree & Hfin).
     fold D in Hfin, Hfree. fold hdr0 in Hfin. fold b1 in Hfin. fold g' in Hfin.
     fold h in Hfin. rewrite Hfin.
-    eexists len0, count0, _, _. split; [reflexivity|]. repeat split; try lia.
+    eexists len0, count0, _. split; [reflexivity|]. repeat split; try lia.
   - (* a nested volume grows *)
     subst rz. replace ((len0 <? zlen b1) && negb true) with false by (rewrite andb_false_r; reflexivity).
     replace (len0 <? zlen b1) with true by lia.
     assert (Hbp : 0 < vp_bsize p) by (rewrite Hbs; apply Z.pow_pos_nonneg; lia).
     replace (vp_bsize p =? 0) with false by lia. cbn [bind].
+    assert (Ers : resize_len (zlen b1) (vp_bsize p) (vp_more p) =
+                  (align_go (zlen b1) (vp_bsize p), (align_go (zlen b1) (vp_bsize p) / vp_bsize p) mod U32)).
+    { rewrite Hmr, Hbs. apply resize_single; lia. }
+    rewrite Ers. cbn [fst snd].
     destruct (align_go_pow2 (zlen b1) k ltac:(lia) ltac:(lia) ltac:(lia)) as (Eal & Bal & Mal).
     rewrite <- Hbs in Eal, Bal, Mal.
     set (len' := align_go (zlen b1) (vp_bsize p)) in *.
     assert (Hm8 : len' mod 8 = 0).
     { rewrite Eal. apply (mod_pow2_8 _ k); [lia|]. rewrite <- Hbs. exact Mal. }
-    destruct (vol_finish_ref ffs3 p g len0 ck0 count0 off true fs F len' ((len' / vp_bsize p) mod U32) Hp Lg
+    destruct (vol_finish_ref ffs3 p g len0 ckr ck0 count0 off true fs F len' ((len' / vp_bsize p) mod U32) Hp Lg
                 ltac:(fold D; fold hdr0; fold b1; rewrite Eal; lia) Hm8) as (Hfree & Hfin).
     fold D in Hfin, Hfree. fold hdr0 in Hfin. fold b1 in Hfin. fold g' in Hfin.
     fold h in Hfin. rewrite Hfin.
-    eexists len', _, _, _. split; [reflexivity|].
+    eexists len', _, _. split; [reflexivity|].
     assert (0 <= (len' / vp_bsize p) mod U32 < 2 ^ 32) by (apply Z.mod_pos_bound; reflexivity).
     repeat split; try lia.
-    + rewrite Eal. lia.
-    + right. repeat split. rewrite Eal, Lb1. reflexivity.
+    right. repeat split. rewrite Eal, Lb1. reflexivity.
+Qed.
+
+
+Lemma zlen_vp_bytes p g count F free : vp_ok p -> (g = FFS2 \/ g = FFS3) -> 0 <= free ->
+  zlen (vp_bytes p g count F free) = vp_D p + zlen (flay F) + free.
+Proof using Type. clear_sec.
+  intros Hp Hg Hf. unfold vp_bytes, vol_bytes_x, vp_D.
+  rewrite !zlen_app, FfsVolLemmas.zlen_zrepeat by lia.
+  rewrite zlen_fv_header by (try apply Hp; destruct Hg as [-> | ->]; reflexivity). lia.
+Qed.
+
+(* ========================================================================================== *)
+(* canonical trees with volumes; the three stages together                                     *)
+(* ========================================================================================== *)
+
+Definition is_vol (n : node) : Prop := match n with NVol _ _ _ => True | _ => False end.
+
+(* a nested volume as the parser builds it: offset 0, resizable *)
+Definition nested_hdr (v : node) : Prop :=
+  match v with NVol h _ _ => v_fvoffset h = 0 /\ v_resizable h = true | _ => False end.
+
+(* every buffer below 16 MiB: no file or section needs the extended header forms, the FFS3 flag is
+   never raised *)
+Definition SZ16 : Z := 16777215.
+
+Fixpoint small16 (n : node) : Prop :=
+  let all := fix all (l : list node) : Prop :=
+               match l with [] => True | x :: r => small16 x /\ all r end in
+  match n with
+  | NSec _ b k => zlen b < SZ16 /\ all k
+  | NFile _ b k => zlen b < SZ16 /\ all k
+  | NVol _ b k => zlen b < SZ16 /\ all k
+  | NPad _ b => zlen b < SZ16
+  end.
+
+Lemma small16_all l :
+  (fix all (l : list node) : Prop := match l with [] => True | x :: r => small16 x /\ all r end) l <->
+  Forall small16 l.
+Proof using Type. clear_sec.
+  induction l as [|x r IH].
+  - split; intros; [constructor|exact I].
+  - split.
+    + intros [Hx Hr]. constructor; [assumption|apply IH; assumption].
+    + intros H. inversion H; subst. split; [assumption|apply IH; assumption].
+Qed.
+
+Lemma small16_inv n : small16 n ->
+  zlen (node_buf n) < SZ16 /\
+  Forall small16 (match n with NSec _ _ k | NFile _ _ k | NVol _ _ k => k | NPad _ _ => [] end).
+Proof using Type. clear_sec.
+  destruct n; cbn [small16 node_buf]; intros H; try (destruct H as [H1 H2]; split; [exact H1|apply small16_all; exact H2]).
+  split; [exact H|constructor].
+Qed.
+
+(* [canon pol n]: n is in the form Assemble writes.
+   Sections: leaves that are stable; compressed sections whose buffer is GenSecHeader applied to the
+   encoding of the children; FV-image sections around a canonical nested volume.
+   Files: the regenerated header followed by the joined sections, or section-less files.
+   Volumes (erase polarity 0xFF): the reference layout of Model/FfsSpec.v around canonical files. *)
+Inductive canon (pol : Z) : node -> Prop :=
+| canon_leaf h buf :
+    leaf_ok pol h buf -> leaf_stable h buf -> canon pol (NSec h buf [])
+| canon_comp h buf kids g c :
+    kids <> [] -> Forall (canon pol) kids -> Forall is_sec kids ->
+    s_type h = 2 -> s_gd h = Some g -> zlen (gd_guid g) = 16 -> 0 <= gd_attrs g < 65536 ->
+    Z.land (gd_attrs g) 1 <> 0 -> codec_kind (gd_guid g) <> 0 ->
+    gd_kind g = codec_kind (gd_guid g) ->
+    s_name h = [] -> s_build h = 0 -> s_version h = [] -> s_depex h = None ->
+    enc (codec_kind (gd_guid g)) (join4 [] (map node_buf kids)) = Some c ->
+    zlen c < 4294967000 ->
+    gen_sec_header h c = (h, buf) ->
+    canon pol (NSec h buf kids)
+| canon_fvimg h buf v :
+    pol = 255 -> canon pol v -> nested_hdr v ->
+    s_type h = 23 -> s_gd h = None ->
+    s_name h = [] -> s_build h = 0 -> s_version h = [] -> s_depex h = None ->
+    zlen (node_buf v) < 4294967000 ->
+    gen_sec_header h (node_buf v) = (h, buf) ->
+    canon pol (NSec h buf [v])
+| canon_file_leaf h buf :
+    file_leaf_ok pol h buf -> f_nvar h = None -> canon pol (NFile h buf [])
+| canon_file h buf kids :
+    kids <> [] -> Forall (canon pol) kids -> Forall is_sec kids ->
+    f_nvar h = None -> supported_file (f_type h) = true -> zlen (f_guid h) = 16 ->
+    zlen (join4 [] (map node_buf kids)) < 4294967000 ->
+    file_regen h (join4 [] (map node_buf kids)) = (h, buf) ->
+    canon pol (NFile h buf kids)
+| canon_vol p g ck count off rz buf kids free :
+    pol = 255 -> vp_ok p -> (g = FFS2 \/ g = FFS3) -> 0 <= count < 2 ^ 32 -> 0 <= free ->
+    kids <> [] -> Forall (canon pol) kids -> Forall is_file kids -> Forall small16 kids ->
+    files_aligned (vp_D p) (map node_buf kids) = true ->
+    buf = vp_bytes p g count (map node_buf kids) free -> zlen buf < 2 ^ 64 -> zlen buf mod 8 = 0 ->
+    canon pol (NVol (vp_hdr p g (zlen buf) ck count off rz free) buf kids).
+
+Definition reparses_vol (rv : Z -> bytes -> Z -> bool -> outcome (node * Z)) (v : node) : Prop :=
+  match v with
+  | NVol h buf _ =>
+    forall pol rest, (pol = 240 \/ pol = 255) ->
+      exists v2, rv pol (buf ++ rest) (v_fvoffset h) (v_resizable h) = Ok (v2, 255) /\ strip v2 = strip v
+  | _ => False
+  end.
+
+Definition reparses (pol : Z) (d : nat) (n : node) : Prop :=
+  match n with
+  | NSec _ _ _ => reparses_sec (psec d) pol n
+  | NFile _ _ _ => reparses_file (pfile d) pol n
+  | NVol _ _ _ => reparses_vol (pfv d) n
+  | NPad _ _ => True
+  end.
+
+Lemma pfv_S d pol data off rz : pfv (S d) pol data off rz = fv_body (pfile d) pol data off rz.
+Proof. reflexivity. Qed.
+
+Lemma join4_single b : join4 [] [b] = b.
+Proof using Type. clear_sec. reflexivity. Qed.
+
+(* parsing what Assemble wrote gives the same tree up to metadata: all node kinds *)
+Theorem canon_reparses pol : forall n, canon pol n -> forall d, (height n <= d)%nat -> reparses pol d n.
+Proof.
+  induction n as [h buf kids IH|h buf kids IH|h buf kids IH|] using node_ind'; intros Hc d Hd; [| | |exact I].
+  - (* sections *)
+    cbn [reparses]. inversion Hc; subst.
+    + (* leaf *)
+      destruct d as [|d]; [simpl in Hd; lia|].
+      match goal with H : leaf_ok _ _ _ |- _ => pose proof (leaf_reparse pol h buf H) as Hl; destruct H as [Hp _] end.
+      assert (H4 : 4 <= zlen buf).
+      { rewrite section_body_eq in Hp. destruct (zlen buf <? 4) eqn:E; [discriminate|]. lia. }
+      split; [cbn [node_buf]; lia|]. intros rest i. cbn [node_buf].
+      exists (NSec (set_order h i) buf []). rewrite psec_S, Hl. split; [reflexivity|]. split; [reflexivity|].
+      cbn [sec_ext set_order s_ext].
+      rewrite section_body_eq in Hp. destruct (zlen buf <? 4); [discriminate|].
+      destruct (sec_head buf) as [[hl ext]| | |]; cbn [bind] in Hp; try discriminate.
+      destruct (zlen buf <? ext) eqn:Ee; [discriminate|].
+      destruct (ext <? hl) eqn:Ehl; [discriminate|].
+      pose proof (sec_tail_type _ _ _ _ _ _ _ _ _ _ _ _ _ Hp) as (_ & _ & Hext & _ & Hb).
+      rewrite Hext. apply sub0_whole; [lia|lia|symmetry; exact Hb].
+    + (* compressed *)
+      destruct d as [|d]; [simpl in Hd; lia|].
+      assert (Hkids : Forall (reparses_sec (psec d) pol) kids).
+      { rewrite Forall_forall in *. intros k Hin.
+        match goal with H : forall x, In x kids -> canon pol x |- _ => pose proof (H k Hin) as Hck end.
+        match goal with H : forall x, In x kids -> is_sec x |- _ => pose proof (H k Hin) as Hsk end.
+        assert (Hh : (height k <= d)%nat) by (cbn [height] in Hd; pose proof (height_kids k kids Hin); lia).
+        pose proof (IH k Hin Hck d Hh) as R. destruct k; try (destruct Hsk). exact R. }
+      match goal with Hg : gen_sec_header h ?c = (h, buf), He : enc _ _ = Some ?c |- _ =>
+        pose proof (fun rest i => sbody_comp (psec d) (pfv d) pol h h g c buf kids rest i
+          ltac:(assumption) ltac:(assumption) ltac:(assumption) ltac:(assumption) ltac:(assumption)
+          ltac:(assumption) He ltac:(assumption) Hg Hkids) as Hsb end.
+      destruct (Hsb [] 0) as (_ & _ & _ & _ & Hge4 & _).
+      split; [cbn [node_buf]; lia|]. intros rest i. cbn [node_buf].
+      destruct (Hsb rest i) as (kids2 & Hparse & Hstrip & Hext & _ & Hgd & _).
+      eexists. rewrite psec_S. split; [exact Hparse|]. split; [|cbn [sec_ext s_ext]; exact Hext].
+      cbn [strip]. rewrite Hstrip. f_equal.
+      unfold set_order. cbn [s_size3 s_type s_ext s_hlen s_gd s_name s_build s_version s_depex].
+      match goal with E1 : s_type h = 2, E2 : s_name h = [], E3 : s_build h = 0, E4 : s_version h = [],
+        E5 : s_depex h = None, E6 : gd_kind g = _ |- _ => rewrite E1, E2, E3, E4, E5, Hgd, E6 end.
+      reflexivity.
+    + (* FV-image section *)
+      destruct d as [|d]; [simpl in Hd; lia|].
+      inversion IH as [|? ? IHv _]; subst.
+      assert (Hh : (height v <= d)%nat) by (cbn [height fold_right] in Hd; lia).
+      match goal with Hcv : canon 255 v |- _ => pose proof (IHv Hcv d Hh) as Rv end.
+      destruct v as [| |hv vb vk|]; try (exfalso; match goal with H : nested_hdr _ |- _ => exact H end).
+      match goal with H : nested_hdr _ |- _ => destruct H as [Hoff Hrz] end.
+      cbn [reparses reparses_vol] in Rv. rewrite Hoff, Hrz in Rv.
+      destruct (Rv 255 [] (or_intror eq_refl)) as (v2 & Hpv & Hsv). rewrite app_nil_r in Hpv.
+      cbn [node_buf] in *.
+      assert (Hvpos : 0 < zlen vb).
+      { match goal with Hcv : canon 255 (NVol hv vb vk) |- _ => inversion Hcv; subst end.
+        match goal with Hp : vp_ok ?p, Hgg : _ = FFS2 \/ _ = FFS3, Hf : 0 <= ?free |- _ =>
+          rewrite (zlen_vp_bytes p _ _ _ free Hp Hgg Hf); pose proof (vp_D_mod8 p Hp) as (_ & H72 & _) end.
+        match goal with |- context [zlen (flay ?F)] => pose proof (zlen_nonneg (flay F)) end. lia. }
+      match goal with Hg : gen_sec_header h vb = (h, buf), Ht : s_type h = 23, Hn : s_gd h = None |- _ =>
+        pose proof (fun rest i => fvimage_section_transparent (psec d) (pfv d) 255 h vb h buf rest i v2 255
+                      Ht Hn ltac:(unfold SZ; lia) Hg Hpv) as Hfv end.
+      destruct (Hfv [] 0) as (_ & He & Hl).
+      assert (Hhl : s_hlen h = 4 \/ s_hlen h = 8).
+      { match goal with Hg : gen_sec_header h vb = (h, buf) |- _ =>
+          destruct (gen_shape h vb ltac:(lia)) as (chdr & hl & s3 & Hhl & _ & Hgen & _); rewrite Hg in Hgen end.
+        pose proof (f_equal (fun x => s_hlen (fst x)) Hgen) as E. cbn [fst s_hlen] in E. lia. }
+      split; [cbn [node_buf]; lia|]. intros rest i. cbn [node_buf].
+      destruct (Hfv rest i) as (Hparse & _ & _).
+      eexists. rewrite psec_S. split; [exact Hparse|]. split; [|cbn [sec_ext sec_default s_ext]; exact He].
+      cbn [strip map]. rewrite Hsv. f_equal.
+      destruct h as [s3 ty ex hl gd nm bu ve de od]. cbn [s_type s_gd s_name s_build s_version s_depex] in *.
+      subst. reflexivity.
+  - (* files *)
+    cbn [reparses]. destruct d as [|d]; [simpl in Hd; lia|]. inversion Hc; subst.
+    + match goal with H : file_leaf_ok _ _ _ |- _ =>
+        pose proof (file_leaf_reparse pol h buf H) as Hl; destruct (file_leaf_ext pol h buf H) as (He & H24 & _) end.
+      split; [exact H24|]. intros rest. exists (NFile h buf []). rewrite pfile_S, Hl.
+      split; [reflexivity|]. split; [reflexivity|]. exact He.
+    + assert (Hkids : Forall (reparses_sec (psec d) pol) kids).
+      { rewrite Forall_forall in *. intros k Hin.
+        match goal with H : forall x, In x kids -> canon pol x |- _ => pose proof (H k Hin) as Hck end.
+        match goal with H : forall x, In x kids -> is_sec x |- _ => pose proof (H k Hin) as Hsk end.
+        assert (Hh : (height k <= d)%nat) by (cbn [height] in Hd; pose proof (height_kids k kids Hin); lia).
+        pose proof (IH k Hin Hck d Hh) as R. destruct k; try (destruct Hsk). exact R. }
+      match goal with Hr : file_regen h _ = (h, buf) |- _ =>
+        pose proof (fun rest => fbody_file (psec d) pol h buf kids rest ltac:(assumption) ltac:(assumption)
+                                  ltac:(assumption) ltac:(assumption) Hr Hkids) as Hfb end.
+      destruct (Hfb []) as (_ & _ & _ & _ & _ & H24).
+      split; [exact H24|]. intros rest. cbn [node_buf].
+      destruct (Hfb rest) as (kids2 & o & Hparse & Hstrip & Hext & _).
+      eexists. rewrite pfile_S. split; [exact Hparse|]. split; [|cbn [file_ext set_fdo f_ext]; exact Hext].
+      cbn [strip]. rewrite Hstrip. reflexivity.
+  - (* volumes *)
+    inversion Hc; subst. cbn [reparses reparses_vol]. intros pol0 rest Hpol0.
+    destruct d as [|[|d]].
+    { simpl in Hd; lia. }
+    { exfalso. cbn [height] in Hd. destruct kids as [|k0 kr]; [congruence|].
+      cbn [fold_right] in Hd. assert (1 <= height k0)%nat by (destruct k0; cbn [height]; lia). lia. }
+    assert (Hkids : Forall (reparses_file (pfile (S d)) 255) kids).
+    { rewrite Forall_forall in *. intros k Hin.
+      match goal with H : forall x, In x kids -> canon 255 x |- _ => pose proof (H k Hin) as Hck end.
+      match goal with H : forall x, In x kids -> is_file x |- _ => pose proof (H k Hin) as Hsk end.
+      assert (Hh : (height k <= S d)%nat) by (cbn [height] in Hd; pose proof (height_kids k kids Hin); lia).
+      pose proof (IH k Hin Hck (S d) Hh) as R. destruct k; try (destruct Hsk). exact R. }
+    unfold vp_hdr, ref_hdr. cbn [v_fvoffset v_resizable].
+    match goal with Hlen : zlen (vp_bytes p g count (map node_buf kids) free) < 2 ^ 64 |- _ =>
+      destruct (parse_fv_ref d pol0 p g count kids free rest off rz ltac:(assumption) ltac:(assumption)
+                  ltac:(assumption) ltac:(assumption) Hpol0 Hkids Hlen) as (kids2 & fs & ck2 & Hparse & Hstrip & _) end.
+    eexists. split; [exact Hparse|]. cbn [strip]. rewrite Hstrip. reflexivity.
+Qed.
+
+
+(* ---------- Assemble on canonical trees: an exact fixed point ---------- *)
+
+Lemma leaf_ext pol h buf : leaf_ok pol h buf -> s_ext h = zlen buf /\ 4 <= zlen buf.
+Proof using Type. clear_sec.
+  intros [Hp _]. rewrite section_body_eq in Hp. destruct (zlen buf <? 4) eqn:E4; [discriminate|].
+  destruct (sec_head buf) as [[hl ext]| | |]; cbn [bind] in Hp; try discriminate.
+  destruct (zlen buf <? ext) eqn:Ee; [discriminate|].
+  destruct (ext <? hl) eqn:Ehl; [discriminate|].
+  pose proof (sec_tail_type _ _ _ _ _ _ _ _ _ _ _ _ _ Hp) as (_ & _ & Hext & _ & Hb).
+  split; [|lia]. rewrite Hext. apply sub0_whole; [lia|lia|symmetry; exact Hb].
+Qed.
+
+Lemma leaf_stable_flag h buf p f : leaf_stable h buf ->
+  exists b, secasm h buf [] (p, f) = Ok (NSec h buf [], (p, f || b)) /\
+            (b = false \/ b = (16777215 <? s_ext h)).
+Proof using Type. clear_sec.
+  unfold leaf_stable. rewrite (sec_asm_node_st h buf [] (255, false) (p, f)).
+  unfold sec_asm.
+  match goal with |- context [bind ?e _] => destruct e as [[b|]| | |] end; cbn [bind asm_node]; try discriminate.
+  - destruct (gen_sec_header h b) as [h' nb]. cbn [asm_node]. intros [= -> ->].
+    eexists. split; [reflexivity|]. right; reflexivity.
+  - intros _. exists false. rewrite orb_false_r. split; [reflexivity|left; reflexivity].
+Qed.
+
+Lemma gen_ext_gd h g b h' nb : s_gd h = Some g -> zlen (gd_guid g) = 16 -> zlen b < SZ ->
+  gen_sec_header h b = (h', nb) -> s_ext h' = zlen nb.
+Proof using Type. clear_sec.
+  intros Hg Hg16 Hz Hgen.
+  destruct (gen_shape h b Hz) as (chdr & hl & size3 & Hhl & Hlen & Hgen' & _).
+  rewrite Hgen, Hg in Hgen'. cbn [tslen regd tshdr gd_guid gd_dataoff gd_attrs] in Hgen'.
+  pose proof (f_equal fst Hgen') as Eh. pose proof (f_equal snd Hgen') as Eb.
+  cbn [fst snd] in Eh, Eb. subst h' nb. cbn [s_ext]. rewrite !zlen_app, !le2, Hg16, Hlen. lia.
+Qed.
+
+Lemma canon_file_attr pol k : canon pol k -> is_file k -> node_attr k = rd 19 1 (node_buf k).
+Proof.
+  intros Hc Hf. destruct k as [|h buf kids| |]; try (destruct Hf). cbn [node_attr node_buf].
+  inversion Hc; subst.
+  - match goal with H : file_leaf_ok _ _ _ |- _ => destruct (file_leaf_ext pol h buf H) as (_ & _ & Ha) end. exact Ha.
+  - match goal with Hr : file_regen h ?data = (h, buf), Hg : zlen (f_guid h) = 16, Hz : zlen ?data < _ |- _ =>
+      destruct (file_regen_shape h data Hg Hz) as (hdr & ckh & ckf & attr & size3 & hl & _ & _ & Hreg & _ & _ & _ & _ & Hrd & _);
+      rewrite Hr in Hreg end.
+    pose proof (f_equal (fun x => f_attr (fst x)) Hreg) as Ea. pose proof (f_equal snd Hreg) as Eb.
+    cbn [fst snd f_attr] in Ea, Eb. rewrite Ea, Eb.
+    match goal with |- _ = rd 19 1 (hdr ++ ?data) => destruct (Hrd data) as (_ & _ & _ & _ & R19 & _) end.
+    symmetry. exact R19.
+Qed.
+
+Definition fixes (pol : Z) (n : node) : Prop :=
+  forall f, exists f', asm' n (pol, f) = Ok (n, (pol, f')) /\ (small16 n \/ is_vol n -> f' = f).
+
+Lemma asml_fixes pol kids : Forall (fixes pol) kids ->
+  forall f, exists f', asml kids (pol, f) = Ok (kids, (pol, f')) /\ (Forall small16 kids -> f' = f).
+Proof using Type. clear_sec.
+  induction 1 as [|k r Hk Hr IH]; intros f; cbn [asm_elems].
+  - exists f. split; [reflexivity|auto].
+  - destruct (Hk f) as (f1 & E1 & F1). rewrite E1. cbn [bind].
+    destruct (IH f1) as (f2 & E2 & F2). rewrite E2. cbn [bind]. exists f2. split; [reflexivity|].
+    intros Hs. inversion Hs; subst. rewrite F2 by assumption. apply F1. left; assumption.
+Qed.
+
+Theorem canon_asm_fixed pol n : canon pol n -> fixes pol n.
+Proof.
+  induction n as [h buf kids IH|h buf kids IH|h buf kids IH|] using node_ind'; intros Hc f; inversion Hc; subst.
+  - (* leaf section *)
+    rewrite asm_sec. cbn [asm_elems bind].
+    match goal with Hs : leaf_stable h buf, Hl : leaf_ok _ h buf |- _ =>
+      destruct (leaf_stable_flag h buf pol f Hs) as (b & E & Hb); destruct (leaf_ext pol h buf Hl) as (He & _) end.
+    exists (f || b). split; [exact E|]. intros [Hs|[]]. cbn [small16] in Hs. destruct Hs as [Hs _].
+    destruct Hb as [-> | ->]; [apply orb_false_r|].
+    replace (16777215 <? s_ext h) with false by (unfold SZ16 in Hs; lia). apply orb_false_r.
+  - (* compressed section *)
+    rewrite asm_sec.
+    assert (Hk : Forall (fixes pol) kids) by (rewrite Forall_forall in *; intros k Hin; apply IH; auto).
+    destruct (asml_fixes pol kids Hk f) as (f1 & E & F1). rewrite E. cbn [bind].
+    unfold sec_asm. destruct kids as [|k0 r]; [congruence|].
+    match goal with Ht : s_type h = 2, Hg : s_gd h = Some g, Hb : Z.land _ 1 <> 0, Hk0 : codec_kind _ <> 0,
+      He : enc _ _ = Some ?c, Hgen : gen_sec_header h ?c = _, Hz : zlen ?c < _, Hg16 : zlen (gd_guid g) = 16 |- _ =>
+      rewrite Ht, Hg; change (2 =? 2) with true; cbv iota;
+      replace (Z.land (gd_attrs g) 1 =? 0) with false by lia; cbn [negb];
+      replace (codec_kind (gd_guid g) =? 0) with false by lia;
+      rewrite He; cbn [bind]; rewrite Hgen;
+      pose proof (gen_ext_gd h g c h buf Hg Hg16 Hz Hgen) as Hext end.
+    eexists. split; [reflexivity|]. intros [Hs|[]].
+    destruct (small16_inv _ Hs) as [Hz Hks]. cbn [node_buf] in Hz. rewrite (F1 Hks).
+    replace (16777215 <? s_ext h) with false by (unfold SZ16 in Hz; lia). apply orb_false_r.
+  - (* FV-image section *)
+    rewrite asm_sec. cbn [asm_elems]. inversion IH as [|? ? IHv _]; subst.
+    match goal with Hcv : canon 255 v |- _ => destruct (IHv Hcv f) as (f1 & E1 & F1) end.
+    rewrite E1. cbn [bind]. unfold sec_asm.
+    lazymatch goal with Ht : s_type h = 23, Hgen : gen_sec_header h _ = _, Hn : s_gd h = None, Hz : zlen (node_buf v) < _ |- _ =>
+      rewrite Ht; change (23 =? 2) with false; cbv iota; cbn [map bind]; rewrite join4_single, Hgen;
+      pose proof (sec_sizes h _ h buf Hn Hz Hgen) as (Hext & _) end.
+    eexists. split; [reflexivity|]. intros [Hs|[]].
+    destruct (small16_inv _ Hs) as [Hz Hks]. cbn [node_buf] in Hz.
+    rewrite F1 by (right; destruct v; try exact I; match goal with H : nested_hdr _ |- _ => destruct H end).
+    replace (16777215 <? s_ext h) with false by (unfold SZ16 in Hz; lia). apply orb_false_r.
+  - (* file without sections *)
+    rewrite asm_file. cbn [asm_elems bind]. unfold file_asm.
+    match goal with H : f_nvar h = None |- _ => rewrite H end. exists f. split; [reflexivity|auto].
+  - (* file with sections *)
+    rewrite asm_file.
+    assert (Hk : Forall (fixes pol) kids) by (rewrite Forall_forall in *; intros k Hin; apply IH; auto).
+    destruct (asml_fixes pol kids Hk f) as (f1 & E & F1). rewrite E. cbn [bind].
+    unfold file_asm. destruct kids as [|k0 r]; [congruence|].
+    match goal with H : f_nvar h = None, Hr : file_regen h ?data = _, Hg : zlen (f_guid h) = 16, Hz : zlen ?data < _ |- _ =>
+      rewrite H; pose proof (file_sizes h data h buf Hg Hz Hr) as (Hext & _); unfold file_regen in Hr;
+      destruct (set_size (f_attr h) (24 + zlen data) true) as [ext attr] eqn:Ess;
+      pose proof (cka_fields h ext attr data) as (_ & _ & _ & _ & _ & Ee & _);
+      rewrite Hr in *; cbn [fst] in Ee end.
+    eexists. split; [reflexivity|]. intros [Hs|[]].
+    destruct (small16_inv _ Hs) as [Hz' Hks]. cbn [node_buf] in Hz'. rewrite (F1 Hks).
+    replace (16777215 <? ext) with false by (unfold SZ16 in Hz'; lia). apply orb_false_r.
+  - (* volume *)
+    rewrite asm_volume. cbn [fst snd]. unfold vp_hdr at 1, ref_hdr at 1. cbn [v_attrs].
+    match goal with Hp : vp_ok p |- _ => pose proof Hp as (Lz & Hat & Hpolb & Hs & Hmore & Hhl & Hext);
+      pose proof (vp_D_mod8 p Hp) as (HD8 & HD72 & Heo) end.
+    replace (fv_polarity (vp_attrs p)) with 255
+      by (unfold fv_polarity; destruct (Z.land (vp_attrs p) 2048 =? 0) eqn:E; [lia|reflexivity]).
+    change (set_polarity 255 255) with (Some 255). cbv iota.
+    assert (Hk : Forall (fixes 255) kids) by (rewrite Forall_forall in *; intros k Hin; apply IH; auto).
+    destruct (asml_fixes 255 kids Hk false) as (f1 & E & F1). rewrite E. cbn [bind].
+    rewrite (F1 ltac:(assumption)). unfold vol_asm.
+    set (F := map node_buf kids) in *. set (buf := vp_bytes p g count F free) in *.
+    assert (Lb : zlen buf = vp_D p + zlen (flay F) + free) by (apply zlen_vp_bytes; assumption).
+    assert (AD : align8 (vp_D p) = vp_D p) by (apply align8_unique; lia).
+    pose proof (zlen_play_le F (vp_D p) ltac:(lia)) as Hple. rewrite AD, Z.sub_diag in Hple.
+    pose proof (zlen_nonneg (flay F)) as Hfl. pose proof (zlen_nonneg (play (vp_D p) F)) as Hpl.
+    assert (Hsub : sub 0 (vp_D p) buf =
+                   fv_header (vp_zero p) g (zlen buf) (vp_attrs p)
+                     (fv_cksum (vp_zero p) g (zlen buf) (vp_attrs p) (vp_eo p) (vp_reserved p) (vp_rev p) count
+                        (vp_bsize p) (vp_more p)) (vp_eo p) (vp_reserved p) (vp_rev p) count (vp_bsize p) (vp_more p)
+                   ++ vp_ext p).
+    { unfold buf at 1, vp_bytes, vol_bytes_x. fold (vp_D p). rewrite <- Lb at 1 2.
+      rewrite app_assoc. apply sub_app_here. rewrite zlen_app, zlen_fv_header; [reflexivity|exact Lz|].
+      match goal with Hg : g = FFS2 \/ g = FFS3 |- _ => destruct Hg as [-> | ->]; reflexivity end. }
+    assert (Hpos : Forall (fun k => 0 < zlen (node_buf k)) kids).
+    { rewrite Forall_forall in *. intros k Hin.
+      match goal with Hc' : forall x, In x kids -> canon 255 x, Hf' : forall x, In x kids -> is_file x |- _ =>
+        pose proof (canon_reparses 255 k (Hc' k Hin) (height k) (le_n _)) as R; pose proof (Hf' k Hin) as Hfk end.
+      destruct k; try (destruct Hfk). destruct R as [H24 _]. lia. }
+    assert (Hattr : map node_attr kids = map (rd 19 1) F).
+    { unfold F. rewrite map_map. apply map_ext_in. intros k Hin. rewrite Forall_forall in *.
+      apply (canon_file_attr 255); auto. }
+    match goal with Hg : g = FFS2 \/ g = FFS3, Hc0 : 0 <= count < 2 ^ 32, Hne : kids <> [], Hal : files_aligned _ _ = true |- _ =>
+      destruct (asm_vol_ref false p g (zlen buf) ck _ count off rz free buf kids ltac:(assumption) Hg Hne Hc0 Hsub
+                  ltac:(lia) Hpos Hal Hattr ltac:(left; split; [fold F; lia|assumption]))
+        as (len' & count' & free' & Hasm & Hsame & Hfree' & _ & Hlen' & _) end.
+    destruct (Hsame ltac:(fold F; lia)) as [-> ->]. fold F in Hasm, Hlen'.
+    assert (free' = free) by lia. subst free'.
+    cbn [andb] in Hasm. rewrite Z.mod_small in Hasm by (unfold U64; lia).
+    rewrite Hasm. cbn [bind fst snd]. exists f. split; [reflexivity|auto].
+Qed.
+
+
+(* ---------- Assemble of a volume, from its success ---------- *)
+
+Lemma place_files_limit pol l : forall kids acc off b,
+  place_files pol (Some l) acc off kids = Ok b -> place_files pol None acc off kids = Ok b.
+Proof using Type. clear_sec.
+  induction kids as [|k r IH]; intros acc off b H; [exact H|].
+  cbn [place_files] in H |- *.
+  destruct (zlen (node_buf k) =? 0); [exact H|].
+  match type of H with (if ?c then _ else _) = _ => destruct c end; [discriminate|].
+  match type of H with bind ?e _ = _ => destruct e as [[b1 a1]| | |] end; cbn [bind] in H |- *; try discriminate.
+  destruct (insert_file pol b1 a1 (node_buf k)) as [b2| | |]; cbn [bind] in H |- *; try discriminate.
+  apply IH. exact H.
+Qed.
+
+Lemma asm_vol_ref_ok ffs3 p g len0 ckr ck0 count0 off rz fs buf kids h' nb :
+  vp_ok p -> (g = FFS2 \/ g = FFS3) -> kids <> [] -> 0 <= count0 < 2 ^ 32 ->
+  let D := vp_D p in
+  let F := map node_buf kids in
+  sub 0 D buf = fv_header (vp_zero p) g len0 (vp_attrs p) ck0 (vp_eo p) (vp_reserved p) (vp_rev p) count0
+                          (vp_bsize p) (vp_more p) ++ vp_ext p ->
+  D <= zlen buf <= len0 -> len0 mod 8 = 0 -> len0 < 2 ^ 64 ->
+  (rz = true -> vp_more p = [] /\ exists k, 3 <= k < 64 /\ vp_bsize p = 2 ^ k) ->
+  Forall (fun k => 0 < zlen (node_buf k)) kids -> files_aligned D F = true ->
+  map node_attr kids = map (rd 19 1) F -> D + zlen (flay F) < 2 ^ 63 ->
+  asm_vol 255 ffs3 (vp_hdr p g len0 ckr count0 off rz fs) buf kids = Ok (h', nb) ->
+  let g' := if ffs3 && bytes_eqb g FFS2 then FFS3 else g in
+  exists len' count' free',
+    h' = vp_hdr p g' len' ckr count' off rz (free' mod U64) /\ nb = vp_bytes p g' count' F free' /\
+    0 <= free' /\ 0 <= count' < 2 ^ 32 /\ len' = D + zlen (flay F) + free' /\ len' mod 8 = 0 /\ len' < 2 ^ 64.
+Proof using Type. clear_sec.
+  intros Hp Hg Hne Hc0 D F Hsub Hbuf Hm8 Hl64 Hpow Hpos Hal Hattr Hbound Hasm g'.
+  pose proof (vp_D_mod8 p Hp) as (HD8 & HD72 & Heo). fold D in HD8, HD72.
+  assert (AD : align8 D = D) by (apply align8_unique; lia).
+  pose proof (zlen_play_le F D ltac:(lia)) as Hple. rewrite AD, Z.sub_diag in Hple.
+  pose proof (zlen_nonneg (play D F)) as Hpl.
+  set (newlen := D + zlen (play D F)).
+  assert (Hbs : 0 < vp_bsize p < 2 ^ 32) by apply Hp.
+  assert (Hcase : newlen <= len0 /\ len0 mod 8 = 0 \/
+                  rz = true /\ len0 < newlen /\ vp_more p = [] /\
+                  exists k, 3 <= k < 64 /\ vp_bsize p = 2 ^ k /\ newlen + 2 ^ k <= 2 ^ 64).
+  { destruct (Z_le_gt_dec newlen len0) as [Hle|Hgt]; [left; split; assumption|].
+    destruct rz.
+    - right. split; [reflexivity|]. split; [lia|]. destruct (Hpow eq_refl) as (Hmr & k & Hk & Hb).
+      split; [exact Hmr|]. exists k. split; [exact Hk|]. split; [exact Hb|]. rewrite <- Hb. unfold newlen.
+      change (2 ^ 64) with (2 ^ 63 + 2 ^ 63). change (2 ^ 32) with 4294967296 in Hbs.
+      change (2 ^ 63) with 9223372036854775808 in *. lia.
+    - (* a fixed-size volume that is too small is refused *)
+      exfalso. rewrite asm_vol_eq in Hasm. set (h := vp_hdr p g len0 ckr count0 off false fs) in Hasm.
+      change (v_guid h) with g in Hasm. change (v_length h) with len0 in Hasm.
+      change (v_blocks h) with ((count0, vp_bsize p) :: vp_more p) in Hasm. change (v_dataoff h) with D in Hasm.
+      change (v_hdrlen h) with (fv_hlen (vp_more p)) in Hasm. change (v_resizable h) with false in Hasm.
+      destruct kids as [|k0 kr]; [congruence|]. cbn [andb] in Hasm.
+      destruct (len0 <? zlen buf); [discriminate|].
+      destruct (D <? fv_hlen (vp_more p)); [discriminate|].
+      destruct (zlen buf <? D); [discriminate|].
+      rewrite slice_ok in Hasm by lia. rewrite Z.sub_0_r in Hasm. cbn [of_opt bind] in Hasm. rewrite Hsub in Hasm.
+      set (P := fv_header (vp_zero p) g len0 (vp_attrs p) ck0 (vp_eo p) (vp_reserved p) (vp_rev p) count0
+                          (vp_bsize p) (vp_more p) ++ vp_ext p) in *.
+      assert (LP : zlen P = D).
+      { unfold P. rewrite zlen_app, zlen_fv_header by (try apply Hp; destruct Hg as [-> | ->]; reflexivity). reflexivity. }
+      destruct (place_files 255 (Some len0) P D (k0 :: kr)) as [b1| | |] eqn:Epl; cbn [bind] in Hasm; try discriminate.
+      apply place_files_limit in Epl.
+      pose proof (place_files_play (k0 :: kr) None P Hpos ltac:(rewrite LP, AD; exact Hal) Hattr I) as PP.
+      rewrite LP in PP. rewrite PP in Epl. fold F in Epl.
+      assert (Eb1 : b1 = P ++ play D F) by congruence. subst b1. clear Epl.
+      rewrite zlen_app, LP in Hasm. fold F in Hasm. fold newlen in Hasm.
+      replace ((len0 <? newlen) && negb false) with true in Hasm by lia. cbv iota in Hasm. discriminate. }
+  destruct (asm_vol_ref ffs3 p g len0 ckr ck0 count0 off rz fs buf kids Hp Hg Hne Hc0 Hsub Hbuf Hpos Hal Hattr Hcase)
+    as (len' & count' & free' & Hasm' & _ & Hfree & Hcnt & Hlen & Hge & Hm & Hor).
+  rewrite Hasm' in Hasm. injection Hasm as <- <-.
+  exists len', count', free'. repeat split; try assumption; try lia.
+  fold D F in Hlen.
+  destruct Hor as [->|(Hrz & -> & _)]; [exact Hl64|].
+  fold D. fold F. fold newlen.
+  destruct (Hpow Hrz) as (_ & k & Hk & Hb). rewrite Hb.
+  destruct (align_go_pow2 newlen k ltac:(lia) ltac:(unfold newlen; lia)
+              ltac:(rewrite <- Hb; unfold newlen; change (2 ^ 64) with 18446744073709551616;
+                    change (2 ^ 63) with 9223372036854775808 in Hbound; change (2 ^ 32) with 4294967296 in Hbs; lia))
+    as (_ & Bal & _).
+  rewrite <- Hb in Bal |- *. assert (Hnl : newlen <= D + zlen (flay F)) by (unfold newlen; lia).
+  change (2 ^ 64) with 18446744073709551616. change (2 ^ 63) with 9223372036854775808 in Hbound.
+  change (2 ^ 32) with 4294967296 in Hbs. lia.
+Qed.
+
+
+Lemma asm_vol_dataoff pol ffs3 h buf files h' nb :
+  asm_vol pol ffs3 h buf files = Ok (h', nb) -> v_dataoff h' = v_dataoff h.
+Proof using Type. clear_sec.
+  rewrite asm_vol_eq.
+  match goal with |- (if ?c then _ else _) = _ -> _ => destruct c end; [intros [= <- _]; reflexivity|].
+  destruct (v_length h <? zlen buf); [discriminate|].
+  destruct (v_blocks h) as [|[c0 s0] bl]; [discriminate|].
+  destruct (v_dataoff h <? v_hdrlen h); [discriminate|].
+  destruct (zlen buf <? v_dataoff h); [discriminate|].
+  destruct (of_opt 202 (slice 0 (v_dataoff h) buf)) as [hdr| | |]; cbn [bind]; try discriminate.
+  destruct (place_files pol _ hdr (v_dataoff h) files) as [b1| | |]; cbn [bind]; try discriminate.
+  destruct ((v_length h <? zlen b1) && negb (v_resizable h)); [discriminate|].
+  match goal with |- bind ?e _ = _ -> _ => destruct e as [[len blocks]| | |] end; cbn [bind]; try discriminate.
+  unfold vol_finish. cbv zeta.
+  match goal with |- context [if ?c then Panic 204 else _] => destruct c end; [discriminate|].
+  destruct blocks as [|[c s] bt]; [discriminate|].
+  match goal with |- context [if ?c then Panic 206 else _] => destruct c end; [discriminate|].
+  match goal with |- context [match ?e with Some _ => _ | None => Panic 207 end] => destruct e end; [|discriminate].
+  destruct (negb (Z.even (v_hdrlen h))); [discriminate|].
+  intros [= <- _]. reflexivity.
+Qed.
+
+(* ---------- well-formed input trees (with volumes), and what Assemble makes of them ---------- *)
+
+(* conditions on the SAVED tree that concern the layout inside volumes: the files of a volume are
+   below 16 MiB (and so is everything in them), meet their data alignment at their natural position
+   (no pad file has to be inserted), and their total size is below 2^63 *)
+Fixpoint laid (n : node) : Prop :=
+  let all := fix all (l : list node) : Prop :=
+               match l with [] => True | x :: r => laid x /\ all r end in
+  match n with
+  | NSec _ _ k => all k
+  | NFile _ _ k => all k
+  | NVol h _ k =>
+    all k /\ Forall small16 k /\ files_aligned (v_dataoff h) (map node_buf k) = true /\
+    v_dataoff h + zlen (flay (map node_buf k)) < 2 ^ 63
+  | NPad _ _ => True
+  end.
+
+Lemma laid_all l :
+  (fix all (l : list node) : Prop := match l with [] => True | x :: r => laid x /\ all r end) l <->
+  Forall laid l.
+Proof using Type. clear_sec.
+  induction l as [|x r IH].
+  - split; intros; [constructor|exact I].
+  - split.
+    + intros [Hx Hr]. constructor; [assumption|apply IH; assumption].
+    + intros H. inversion H; subst. split; [assumption|apply IH; assumption].
+Qed.
+
+Inductive wf (pol : Z) : node -> Prop :=
+| wf_leaf h buf :
+    leaf_ok pol h buf -> leaf_stable h buf -> wf pol (NSec h buf [])
+| wf_comp h buf kids g :
+    kids <> [] -> Forall (wf pol) kids -> Forall is_sec kids ->
+    s_type h = 2 -> s_gd h = Some g -> zlen (gd_guid g) = 16 -> 0 <= gd_attrs g < 65536 ->
+    Z.land (gd_attrs g) 1 <> 0 -> codec_kind (gd_guid g) <> 0 ->
+    gd_kind g = codec_kind (gd_guid g) ->
+    s_name h = [] -> s_build h = 0 -> s_version h = [] -> s_depex h = None ->
+    wf pol (NSec h buf kids)
+| wf_fvimg h buf v :
+    pol = 255 -> wf pol v -> nested_hdr v -> s_type h = 23 -> s_gd h = None ->
+    s_name h = [] -> s_build h = 0 -> s_version h = [] -> s_depex h = None ->
+    wf pol (NSec h buf [v])
+| wf_file_leaf h buf :
+    file_leaf_ok pol h buf -> f_nvar h = None -> wf pol (NFile h buf [])
+| wf_file h buf kids :
+    kids <> [] -> Forall (wf pol) kids -> Forall is_sec kids ->
+    f_nvar h = None -> supported_file (f_type h) = true -> zlen (f_guid h) = 16 ->
+    wf pol (NFile h buf kids)
+| wf_vol p g len0 ckr ck0 count0 off rz fs buf kids :
+    pol = 255 -> vp_ok p -> (g = FFS2 \/ g = FFS3) -> 0 <= count0 < 2 ^ 32 ->
+    kids <> [] -> Forall (wf pol) kids -> Forall is_file kids ->
+    sub 0 (vp_D p) buf = fv_header (vp_zero p) g len0 (vp_attrs p) ck0 (vp_eo p) (vp_reserved p) (vp_rev p)
+                                   count0 (vp_bsize p) (vp_more p) ++ vp_ext p ->
+    vp_D p <= zlen buf <= len0 -> len0 mod 8 = 0 -> len0 < 2 ^ 64 ->
+    (rz = true -> vp_more p = [] /\ exists k, 3 <= k < 64 /\ vp_bsize p = 2 ^ k) ->
+    wf pol (NVol (vp_hdr p g len0 ckr count0 off rz fs) buf kids).
+
+
+Definition asm_good (pol : Z) (t : node) (f : bool) (t1 : node) (st1 : ast) : Prop :=
+  canon pol t1 /\ deep t1 = deep t /\ same_kind t t1 /\ is_pad_file t1 = is_pad_file t /\
+  fst st1 = pol /\ (small16 t1 \/ is_vol t -> snd st1 = f) /\ (nested_hdr t -> nested_hdr t1).
+
+Lemma kids_canon pol kids :
+  Forall (fun t => wf pol t -> forall f t1 st1, asm' t (pol, f) = Ok (t1, st1) -> small t1 -> laid t1 ->
+                   asm_good pol t f t1 st1) kids ->
+  Forall (wf pol) kids ->
+  forall f kids' st', asml kids (pol, f) = Ok (kids', st') -> Forall small kids' -> Forall laid kids' ->
+  Forall (canon pol) kids' /\ Forall2 same_kind kids kids' /\ map deep kids' = map deep kids /\
+  map is_pad_file kids' = map is_pad_file kids /\ fst st' = pol /\ (Forall small16 kids' -> snd st' = f).
+Proof using Type. clear_sec.
+  induction 1 as [|k r Hk Hr IH]; intros Hw f kids' st' Ha Hs Hl; cbn [asm_elems] in Ha.
+  - injection Ha as <- <-. repeat split; try constructor.
+  - inversion Hw; subst.
+    destruct (asm' k (pol, f)) as [[k1 [p1 f1]]| | |] eqn:E1; cbn [bind] in Ha; try discriminate.
+    destruct (asml r (p1, f1)) as [[r1 s2]| | |] eqn:E2; cbn [bind] in Ha; try discriminate.
+    injection Ha as <- <-. inversion Hs; subst. inversion Hl; subst.
+    destruct (Hk ltac:(assumption) f k1 (p1, f1) E1 ltac:(assumption) ltac:(assumption))
+      as (C & Dk & K & Pk & Ep & Ef & _).
+    cbn [fst snd] in Ep, Ef. subst p1.
+    destruct (IH ltac:(assumption) f1 r1 s2 E2 ltac:(assumption) ltac:(assumption)) as (C' & K' & D' & P' & Ep' & Ef').
+    repeat split.
+    + constructor; assumption.
+    + constructor; assumption.
+    + cbn [map]. rewrite Dk, D'. reflexivity.
+    + cbn [map]. rewrite Pk, P'. reflexivity.
+    + exact Ep'.
+    + intros H16. inversion H16; subst. rewrite Ef' by assumption. apply Ef. left; assumption.
+Qed.
+
+Lemma same_kind_all (P Q : node -> Prop) kids kids' :
+  (forall a b, same_kind a b -> P a -> Q b) -> Forall2 same_kind kids kids' -> Forall P kids -> Forall Q kids'.
+Proof using Type. clear_sec.
+  intros HPQ. induction 1 as [|a b r r' Hab Hr IH]; intros H; [constructor|].
+  inversion H; subst. constructor; [eapply HPQ; eassumption|apply IH; assumption].
+Qed.
+
+Lemma deep_files_eq kids kids' :
+  map deep kids' = map deep kids -> map is_pad_file kids' = map is_pad_file kids ->
+  (fix go (l : list node) : list dtree :=
+     match l with [] => [] | x :: r => if is_pad_file x then go r else deep x :: go r end) kids' =
+  (fix go (l : list node) : list dtree :=
+     match l with [] => [] | x :: r => if is_pad_file x then go r else deep x :: go r end) kids.
+Proof using Type. clear_sec.
+  revert kids'. induction kids as [|k r IH]; intros [|k' r'] Hd Hp; try discriminate; [reflexivity|].
+  cbn [map] in Hd, Hp. injection Hd as Hd1 Hd2. injection Hp as Hp1 Hp2.
+  rewrite Hp1, Hd1, (IH r' Hd2 Hp2). reflexivity.
+Qed.
+
+
+Lemma small_kids n : small n ->
+  zlen (node_buf n) < SZ /\
+  Forall small (match n with NSec _ _ k | NFile _ _ k | NVol _ _ k => k | NPad _ _ => [] end).
+Proof using Type. clear_sec.
+  destruct n; cbn [small node_buf]; intros H; try (destruct H as [H1 H2]; split; [exact H1|apply small_all; exact H2]).
+  split; [exact H|constructor].
+Qed.
+
+Lemma small16_small n : small16 n -> small n.
+Proof using Type. clear_sec.
+  induction n as [h b k IH|h b k IH|h b k IH|] using node_ind'; intros H;
+    try (destruct (small16_inv _ H) as [Hz Hk]; cbn [node_buf] in Hz; cbn [small]; split;
+         [unfold SZ, SZ16 in *; lia|apply small_all; rewrite Forall_forall in *; auto]).
+  cbn [small small16] in *. unfold SZ, SZ16 in *. lia.
+Qed.
+
+(* Assemble turns a well-formed tree into a canonical one with the same decompressed content *)
+Theorem asm_canon pol : forall t, wf pol t -> forall f t1 st1, asm' t (pol, f) = Ok (t1, st1) ->
+  small t1 -> laid t1 -> asm_good pol t f t1 st1.
+Proof.
+  induction t as [h buf kids IH|h buf kids IH|h buf kids IH|] using node_ind';
+    intros Hw f t1 st1 Ha Hs Hl; inversion Hw; subst.
+  - (* leaf section *)
+    rewrite asm_sec in Ha. cbn [asm_elems bind] in Ha.
+    match goal with Hst : leaf_stable h buf, Hlo : leaf_ok _ h buf |- _ =>
+      destruct (leaf_stable_flag h buf pol f Hst) as (b & E & Hb); destruct (leaf_ext pol h buf Hlo) as (He & _) end.
+    rewrite E in Ha. injection Ha as <- <-.
+    split; [constructor; assumption|]. repeat split; try reflexivity; try (intros Hnh; exact Hnh).
+    intros [H16|[]]. cbn [small16] in H16. destruct H16 as [H16 _]. cbn [snd].
+    destruct Hb as [-> | ->]; [apply orb_false_r|].
+    replace (16777215 <? s_ext h) with false by (unfold SZ16 in H16; lia). apply orb_false_r.
+  - (* compressed section *)
+    rewrite asm_sec in Ha.
+    destruct (asml kids (pol, f)) as [[kids' [p2 f2]]| | |] eqn:El; cbn [bind] in Ha; try discriminate.
+    unfold sec_asm in Ha.
+    destruct kids' as [|k0' r'].
+    { pose proof (asml_inv _ _ _ _ El) as F2. inversion F2; subst. congruence. }
+    match goal with Ht : s_type h = 2, Hg : s_gd h = Some g, Hb : Z.land _ 1 <> 0, Hk0 : codec_kind _ <> 0 |- _ =>
+      rewrite Ht, Hg in Ha; change (2 =? 2) with true in Ha; cbv iota in Ha;
+      replace (Z.land (gd_attrs g) 1 =? 0) with false in Ha by lia; cbn [negb] in Ha;
+      replace (codec_kind (gd_guid g) =? 0) with false in Ha by lia end.
+    destruct (enc (codec_kind (gd_guid g)) (join4 [] (map node_buf (k0' :: r')))) as [c|] eqn:Ec;
+      cbn [bind] in Ha; [|discriminate].
+    destruct (gen_sec_header h c) as [h' nb] eqn:Eg. injection Ha as <- <-.
+    destruct (small_kids _ Hs) as [Hsz Hsk]. cbn [node_buf] in Hsz.
+    cbn [laid] in Hl. apply (proj1 (laid_all (k0' :: r'))) in Hl.
+    destruct (kids_canon pol kids IH ltac:(assumption) f (k0' :: r') (p2, f2) El Hsk Hl)
+      as (Hc' & K' & Hd' & _ & Ep & Ef). cbn [fst snd] in Ep, Ef. subst p2.
+    assert (Hs' : Forall is_sec (k0' :: r')) by (apply (same_kind_all is_sec is_sec kids); [exact same_kind_sec|assumption|assumption]).
+    pose proof (f_equal fst Eg) as Eh'. cbn [fst] in Eh'.
+    assert (Hcz : zlen c < SZ).
+    { pose proof (f_equal snd Eg) as Enb. cbn [snd] in Enb. unfold gen_sec_header in Enb. cbn [snd] in Enb.
+      rewrite <- Enb in Hsz. rewrite !zlen_app in Hsz.
+      repeat match type of Hsz with context [zlen ?x] => lazymatch x with c => fail | _ => let H := fresh in pose proof (zlen_nonneg x) as H; generalize dependent (zlen x); intros end end.
+      lia. }
+    assert (Hgd' : s_gd h' = Some (mkGd (gd_guid g) (gd_dataoff (match s_gd h' with Some x => x | None => g end)) (gd_attrs g) (gd_kind g))).
+    { rewrite <- Eh'. unfold gen_sec_header. cbn [fst s_gd].
+      match goal with Hg : s_gd h = Some g |- _ => rewrite Hg end. reflexivity. }
+    assert (Hext : s_ext h' = zlen nb).
+    { match goal with Hg : s_gd h = Some g, Hg16 : zlen (gd_guid g) = 16 |- _ => exact (gen_ext_gd h g c h' nb Hg Hg16 Hcz Eg) end. }
+    split; [|repeat split; try exact I; try (intros Hnh; exact Hnh); try reflexivity].
+    + apply (canon_comp pol h' nb (k0' :: r') (mkGd (gd_guid g) (gd_dataoff (match s_gd h' with Some x => x | None => g end)) (gd_attrs g) (gd_kind g)) c ltac:(discriminate) Hc' Hs');
+        try assumption; try discriminate;
+        try (rewrite <- Eh'; unfold gen_sec_header; cbn [fst s_type s_name s_build s_version s_depex]; assumption).
+      rewrite <- Eh'. rewrite gen_sec_header_idem. rewrite Eg. reflexivity.
+    + cbn [deep]. destruct kids as [|k0 r]; [congruence|].
+      rewrite Hd'. f_equal. f_equal.
+      * rewrite <- Eh'. reflexivity.
+      * rewrite Hgd'. match goal with Hg : s_gd h = Some g |- _ => rewrite Hg end. reflexivity.
+    + intros [H16|[]]. destruct (small16_inv _ H16) as [Hz16 Hk16]. cbn [node_buf snd] in *.
+      rewrite (Ef Hk16). replace (16777215 <? s_ext h') with false by (unfold SZ16 in Hz16; lia). apply orb_false_r.
+  - (* FV-image section *)
+    rewrite asm_sec in Ha. cbn [asm_elems] in Ha. inversion IH as [|? ? IHv _]; subst.
+    destruct (asm' v (255, f)) as [[v' [p2 f2]]| | |] eqn:Ev; cbn [bind] in Ha; try discriminate.
+    unfold sec_asm in Ha.
+    match goal with Ht : s_type h = 23 |- _ => rewrite Ht in Ha; change (23 =? 2) with false in Ha; cbv iota in Ha end.
+    cbn [map bind] in Ha. rewrite join4_single in Ha.
+    destruct (gen_sec_header h (node_buf v')) as [h' nb] eqn:Eg. injection Ha as <- <-.
+    destruct (small_kids _ Hs) as [Hsz Hsk]. cbn [node_buf] in Hsz. inversion Hsk as [|? ? Hsv _]; subst.
+    cbn [laid] in Hl. destruct Hl as [Hlv _].
+    match goal with Hwv : wf 255 v |- _ => destruct (IHv Hwv f v' (p2, f2) Ev Hsv Hlv) as (Cv & Dv & Kv & _ & Ep & Ef & Hn) end.
+    cbn [fst snd] in Ep, Ef. subst p2.
+    assert (Hvol : is_vol v) by (destruct v; try exact I; match goal with H : nested_hdr _ |- _ => destruct H end).
+    rewrite (Ef (or_intror Hvol)) in *.
+    pose proof (f_equal fst Eg) as Eh'. cbn [fst] in Eh'.
+    destruct (small_kids _ Hsv) as [Hvz _].
+    match goal with Hn0 : s_gd h = None |- _ =>
+      assert (Hn' : s_gd h' = None) by (rewrite <- Eh'; unfold gen_sec_header; cbn [fst s_gd]; rewrite Hn0; reflexivity) end.
+    assert (Hgen' : gen_sec_header h' (node_buf v') = (h', nb))
+      by (rewrite <- Eh' at 1; rewrite gen_sec_header_idem; rewrite Eg; reflexivity).
+    destruct (sec_sizes h' (node_buf v') h' nb Hn' Hvz Hgen') as (Hext & _).
+    split; [|repeat split; try exact I; try (intros Hnh; exact Hnh); try reflexivity].
+    + apply canon_fvimg; try assumption; try reflexivity;
+        try (rewrite <- Eh'; unfold gen_sec_header; cbn [fst s_type s_name s_build s_version s_depex]; assumption).
+      apply Hn. assumption.
+    + cbn [deep map]. rewrite Dv. f_equal. f_equal.
+      * rewrite <- Eh'. reflexivity.
+      * rewrite Hn'. match goal with Hn0 : s_gd h = None |- _ => rewrite Hn0 end. reflexivity.
+    + intros [H16|[]]. destruct (small16_inv _ H16) as [Hz16 _]. cbn [node_buf snd] in *.
+      replace (16777215 <? s_ext h') with false by (unfold SZ16 in Hz16; lia). apply orb_false_r.
+  - (* file without sections *)
+    rewrite asm_file in Ha. cbn [asm_elems bind] in Ha. unfold file_asm in Ha.
+    match goal with H : f_nvar h = None |- _ => rewrite H in Ha end. injection Ha as <- <-.
+    split; [constructor; assumption|]. repeat split; try reflexivity; try (intros Hnh; exact Hnh); auto.
+  - (* file with sections *)
+    rewrite asm_file in Ha.
+    destruct (asml kids (pol, f)) as [[kids' [p2 f2]]| | |] eqn:El; cbn [bind] in Ha; try discriminate.
+    unfold file_asm in Ha.
+    destruct kids' as [|k0' r'].
+    { pose proof (asml_inv _ _ _ _ El) as F2. inversion F2; subst. congruence. }
+    match goal with H : f_nvar h = None |- _ => rewrite H in Ha end.
+    pose proof (file_regen_idem h (join4 [] (map node_buf (k0' :: r'))) ltac:(assumption)) as Hidem.
+    unfold file_regen in Hidem at 2 3.
+    destruct (set_size (f_attr h) (24 + zlen (join4 [] (map node_buf (k0' :: r')))) true) as [ext attr] eqn:Ess.
+    destruct (checksum_and_assemble h ext attr (join4 [] (map node_buf (k0' :: r')))) as [h' nb] eqn:Eck.
+    injection Ha as <- <-. cbn [fst] in Hidem.
+    destruct (small_kids _ Hs) as [Hsz Hsk]. cbn [node_buf] in Hsz.
+    cbn [laid] in Hl. apply (proj1 (laid_all (k0' :: r'))) in Hl.
+    destruct (kids_canon pol kids IH ltac:(assumption) f (k0' :: r') (p2, f2) El Hsk Hl)
+      as (Hc' & K' & Hd' & _ & Ep & Ef). cbn [fst snd] in Ep, Ef. subst p2.
+    assert (Hs' : Forall is_sec (k0' :: r')) by (apply (same_kind_all is_sec is_sec kids); [exact same_kind_sec|assumption|assumption]).
+    destruct (cka_fields h ext attr (join4 [] (map node_buf (k0' :: r')))) as (Eg & Et & Ea & Est & _ & Ee & _ & En & _).
+    rewrite Eck in Eg, Et, Ea, Est, En, Ee. cbn [fst] in Eg, Et, Ea, Est, En, Ee.
+    assert (Hdz : zlen (join4 [] (map node_buf (k0' :: r'))) < SZ).
+    { pose proof (f_equal snd Eck) as Enb. cbn [snd] in Enb. unfold checksum_and_assemble in Enb. cbn [snd] in Enb.
+      rewrite <- Enb in Hsz. rewrite zlen_app in Hsz.
+      match type of Hsz with zlen ?x + _ < _ => pose proof (zlen_nonneg x) end. lia. }
+    assert (Hg16 : zlen (f_guid h') = 16) by congruence.
+    destruct (file_sizes h' _ h' nb Hg16 Hdz Hidem) as (Hext & _).
+    split; [|repeat split; try exact I; try (intros Hnh; exact Hnh); try reflexivity].
+    + apply canon_file; try assumption; try discriminate; try congruence.
+    + cbn [deep]. destruct kids as [|k0 r]; [congruence|].
+      rewrite Hd'. f_equal. rewrite Eg, Et, Est, Ea.
+      assert (Hattr : attr = set_large (f_attr h) (16777215 <=? 24 + zlen (join4 [] (map node_buf (k0' :: r'))))).
+      { unfold set_size in Ess. destruct (16777215 <=? _); injection Ess as _ <-; reflexivity. }
+      rewrite Hattr, land_set_large. reflexivity.
+    + cbn [is_pad_file]. rewrite Et. reflexivity.
+    + intros [H16|[]]. destruct (small16_inv _ H16) as [Hz16 Hk16]. cbn [node_buf snd] in *.
+      rewrite (Ef Hk16). replace (16777215 <? ext) with false by (unfold SZ16 in Hz16; lia). apply orb_false_r.
+  - (* volume *)
+    rewrite asm_volume in Ha. cbn [fst snd] in Ha. unfold vp_hdr at 1, ref_hdr at 1 in Ha. cbn [v_attrs] in Ha.
+    match goal with Hp : vp_ok p |- _ => pose proof Hp as (Lz & Hat & Hpolb & Hbs & Hmore & Hhl & Hext);
+      pose proof (vp_D_mod8 p Hp) as (HD8 & HD72 & Heo) end.
+    replace (fv_polarity (vp_attrs p)) with 255 in Ha
+      by (unfold fv_polarity; destruct (Z.land (vp_attrs p) 2048 =? 0) eqn:E; [lia|reflexivity]).
+    change (set_polarity 255 255) with (Some 255) in Ha. cbv iota in Ha.
+    destruct (asml kids (255, false)) as [[kids' [p2 f2]]| | |] eqn:El; cbn [bind] in Ha; try discriminate.
+    unfold vol_asm in Ha.
+    set (h := vp_hdr p g len0 ckr count0 off rz fs) in *.
+    destruct (asm_vol p2 f2 h buf kids') as [[h' nb]| | |] eqn:Ev; cbn [bind] in Ha; try discriminate.
+    injection Ha as <- <-. cbn [fst snd].
+    destruct (small_kids _ Hs) as [Hsz Hsk]. cbn [node_buf] in Hsz.
+    cbn [laid] in Hl. destruct Hl as (Hlk & H16k & Hal & Hbound). apply (proj1 (laid_all kids')) in Hlk.
+    destruct (kids_canon 255 kids IH ltac:(assumption) false kids' (p2, f2) El Hsk Hlk)
+      as (Hc' & K' & Hd' & Hp' & Ep & Ef). cbn [fst snd] in Ep, Ef. subst p2. rewrite (Ef H16k) in *.
+    assert (Hf' : Forall is_file kids') by (apply (same_kind_all is_file is_file kids); [exact same_kind_file|assumption|assumption]).
+    assert (Hne' : kids' <> []).
+    { intros ->. inversion K'; subst. congruence. }
+    rewrite (asm_vol_dataoff _ _ _ _ _ _ _ Ev) in Hal, Hbound. change (v_dataoff h) with (vp_D p) in Hal, Hbound.
+    assert (Hpos : Forall (fun k => 0 < zlen (node_buf k)) kids').
+    { rewrite Forall_forall in *. intros k Hin.
+      pose proof (canon_reparses 255 k (Hc' k Hin) (height k) (le_n _)) as R. pose proof (Hf' k Hin) as Hfk.
+      destruct k; try (destruct Hfk). destruct R as [H24 _]. lia. }
+    assert (Hattr : map node_attr kids' = map (rd 19 1) (map node_buf kids')).
+    { rewrite map_map. apply map_ext_in. intros k Hin. rewrite Forall_forall in *.
+      apply (canon_file_attr 255); auto. }
+    match goal with Hg : g = FFS2 \/ g = FFS3, Hc0 : 0 <= count0 < 2 ^ 32, Hsub : sub 0 _ buf = _, Hb : _ <= zlen buf <= _,
+                    Hm8 : len0 mod 8 = 0, Hl64 : len0 < 2 ^ 64, Hpow : rz = true -> _ |- _ =>
+      destruct (asm_vol_ref_ok false p g len0 ckr ck0 count0 off rz fs buf kids' h' nb ltac:(assumption) Hg Hne' Hc0
+                  Hsub Hb Hm8 Hl64 Hpow Hpos Hal Hattr Hbound Ev)
+        as (len' & count' & free' & -> & -> & Hfree' & Hcnt' & Hlen' & Hm8' & Hl64') end.
+    cbn [andb] in *.
+    assert (Lnb : zlen (vp_bytes p g count' (map node_buf kids') free') = len').
+    { rewrite zlen_vp_bytes by assumption. lia. }
+    rewrite Z.mod_small by (unfold U64; pose proof (zlen_nonneg (flay (map node_buf kids'))); lia).
+    split; [|repeat split; try exact I; try reflexivity].
+    + rewrite <- Lnb at 1. apply canon_vol; try assumption; try reflexivity; try (rewrite Lnb; assumption).
+    + cbn [deep]. destruct kids as [|k0 r]; [congruence|]. destruct kids' as [|k0' r']; [congruence|].
+      unfold h, vp_hdr, ref_hdr.
+      cbn [v_zero v_guid v_sig v_attrs v_hdrlen v_exthdroff v_reserved v_rev v_dataoff v_blocks v_extname map snd].
+      f_equal. exact (deep_files_eq (k0 :: r) (k0' :: r') Hd' Hp').
+    + match goal with Hn : nested_hdr _ |- _ => destruct Hn as [Hn1 Hn2]; exact Hn1 end.
+    + match goal with Hn : nested_hdr _ |- _ => destruct Hn as [Hn1 Hn2]; exact Hn2 end.
+Qed.
+
+
+(* ---------- the property: sections, files, volumes ---------- *)
+
+Lemma second_save pol t1 t2 : canon pol t1 -> strip t2 = strip t1 ->
+  forall f, exists t3 st3, asm' t2 (pol, f) = Ok (t3, st3) /\ node_buf t3 = node_buf t1.
+Proof.
+  intros Hc Hs f. destruct (canon_asm_fixed pol t1 Hc f) as (f1 & E1 & _).
+  destruct (asm_same_bufs t1 t2 (pol, f) t1 (pol, f1) (eq_sym Hs) E1) as (rb & E2 & E3).
+  exists rb, (pol, f1). split; [exact E2|]. rewrite <- (node_buf_strip rb), E3. apply node_buf_strip.
+Qed.
+
+Definition vol_off (n : node) : Z := match n with NVol h _ _ => v_fvoffset h | _ => 0 end.
+Definition vol_rz (n : node) : bool := match n with NVol h _ _ => v_resizable h | _ => false end.
+
+Theorem sec_preserved_and_fixed pol t : wf pol t -> is_sec t ->
+  forall f t1 st1, asm' t (pol, f) = Ok (t1, st1) -> small t1 -> laid t1 ->
+  forall d rest i, (height t1 <= d)%nat ->
+  exists t2, psec d pol (node_buf t1 ++ rest) i = Ok (t2, pol) /\
+             deep t2 = deep t /\
+             forall f', exists t3 st3, asm' t2 (pol, f') = Ok (t3, st3) /\ node_buf t3 = node_buf t1.
+Proof.
+  intros Hw Hs f t1 st1 Ha Hsm Hl d rest i Hd.
+  destruct (asm_canon pol t Hw f t1 st1 Ha Hsm Hl) as (Hc & Hdeep & Hk & _).
+  pose proof (canon_reparses pol t1 Hc d Hd) as R.
+  destruct t; try (destruct Hs). destruct t1; try (destruct Hk). cbn [reparses] in R. destruct R as [_ Hr].
+  destruct (Hr rest i) as (t2 & Hp & Hst & _).
+  exists t2. split; [exact Hp|]. split.
+  - rewrite (strip_deep t2 _ Hst). exact Hdeep.
+  - apply (second_save pol _ t2 Hc Hst).
+Qed.
+
+Theorem file_preserved_and_fixed pol t : wf pol t -> is_file t ->
+  forall f t1 st1, asm' t (pol, f) = Ok (t1, st1) -> small t1 -> laid t1 ->
+  forall d rest, (height t1 <= d)%nat ->
+  exists t2, pfile d pol (node_buf t1 ++ rest) = Ok (Some t2, pol) /\
+             deep t2 = deep t /\
+             forall f', exists t3 st3, asm' t2 (pol, f') = Ok (t3, st3) /\ node_buf t3 = node_buf t1.
+Proof.
+  intros Hw Hs f t1 st1 Ha Hsm Hl d rest Hd.
+  destruct (asm_canon pol t Hw f t1 st1 Ha Hsm Hl) as (Hc & Hdeep & Hk & _).
+  pose proof (canon_reparses pol t1 Hc d Hd) as R.
+  destruct t; try (destruct Hs). destruct t1; try (destruct Hk). cbn [reparses] in R. destruct R as [_ Hr].
+  destruct (Hr rest) as (t2 & Hp & Hst & _).
+  exists t2. split; [exact Hp|]. split.
+  - rewrite (strip_deep t2 _ Hst). exact Hdeep.
+  - apply (second_save pol _ t2 Hc Hst).
+Qed.
+
+(* Stage 3 (volumes, top-level or nested, with files that hold compressed sections that hold nested
+   volumes ... to any depth): save the tree, parse the written volume in any context (erase polarity
+   still unknown or 0xFF): the decompressed tree is the one we started from, and saving the re-parsed
+   tree writes the same bytes *)
+Theorem vol_preserved_and_fixed t : wf 255 t -> is_vol t ->
+  forall f t1 st1, asm' t (255, f) = Ok (t1, st1) -> small t1 -> laid t1 ->
+  forall d pol0 rest, (height t1 <= d)%nat -> (pol0 = 240 \/ pol0 = 255) ->
+  exists t2, pfv d pol0 (node_buf t1 ++ rest) (vol_off t1) (vol_rz t1) = Ok (t2, 255) /\
+             deep t2 = deep t /\
+             forall f', exists t3 st3, asm' t2 (255, f') = Ok (t3, st3) /\ node_buf t3 = node_buf t1.
+Proof.
+  intros Hw Hs f t1 st1 Ha Hsm Hl d pol0 rest Hd Hpol.
+  destruct (asm_canon 255 t Hw f t1 st1 Ha Hsm Hl) as (Hc & Hdeep & Hk & _).
+  pose proof (canon_reparses 255 t1 Hc d Hd) as R.
+  destruct t; try (destruct Hs). destruct t1; try (destruct Hk). cbn [reparses reparses_vol] in R.
+  destruct (R pol0 rest Hpol) as (t2 & Hp & Hst).
+  exists t2. split; [exact Hp|]. split.
+  - rewrite (strip_deep t2 _ Hst). exact Hdeep.
+  - apply (second_save 255 _ t2 Hc Hst).
+Qed.
+
+Theorem vol_semantic_preservation t : wf 255 t -> is_vol t ->
+  forall f t1 st1, asm' t (255, f) = Ok (t1, st1) -> small t1 -> laid t1 ->
+  forall d pol0 rest, (height t1 <= d)%nat -> (pol0 = 240 \/ pol0 = 255) ->
+  exists t2, pfv d pol0 (node_buf t1 ++ rest) (vol_off t1) (vol_rz t1) = Ok (t2, 255) /\ deep t2 = deep t.
+Proof.
+  intros Hw Hs f t1 st1 Ha Hsm Hl d pol0 rest Hd Hpol.
+  destruct (vol_preserved_and_fixed t Hw Hs f t1 st1 Ha Hsm Hl d pol0 rest Hd Hpol) as (t2 & H1 & H2 & _). eauto.
+Qed.
+
+Theorem vol_save_fixed_point t : wf 255 t -> is_vol t ->
+  forall f t1 st1, asm' t (255, f) = Ok (t1, st1) -> small t1 -> laid t1 ->
+  forall d pol0 rest t2, (height t1 <= d)%nat -> (pol0 = 240 \/ pol0 = 255) ->
+  pfv d pol0 (node_buf t1 ++ rest) (vol_off t1) (vol_rz t1) = Ok (t2, 255) ->
+  forall f', exists t3 st3, asm' t2 (255, f') = Ok (t3, st3) /\ node_buf t3 = node_buf t1.
+Proof.
+  intros Hw Hs f t1 st1 Ha Hsm Hl d pol0 rest t2 Hd Hpol Hp.
+  destruct (vol_preserved_and_fixed t Hw Hs f t1 st1 Ha Hsm Hl d pol0 rest Hd Hpol) as (t2' & H1 & _ & H3).
+  rewrite H1 in Hp. injection Hp as <-. exact H3.
+Qed.
+
+Theorem file_semantic_preservation pol t : wf pol t -> is_file t ->
+  forall f t1 st1, asm' t (pol, f) = Ok (t1, st1) -> small t1 -> laid t1 ->
+  forall d rest, (height t1 <= d)%nat ->
+  exists t2, pfile d pol (node_buf t1 ++ rest) = Ok (Some t2, pol) /\ deep t2 = deep t.
+Proof.
+  intros Hw Hf f t1 st1 Ha Hs Hl d rest Hd.
+  destruct (file_preserved_and_fixed pol t Hw Hf f t1 st1 Ha Hs Hl d rest Hd) as (t2 & H1 & H2 & _). eauto.
+Qed.
+
+Theorem file_save_fixed_point pol t : wf pol t -> is_file t ->
+  forall f t1 st1, asm' t (pol, f) = Ok (t1, st1) -> small t1 -> laid t1 ->
+  forall d rest t2, (height t1 <= d)%nat ->
+  pfile d pol (node_buf t1 ++ rest) = Ok (Some t2, pol) ->
+  forall f', exists t3 st3, asm' t2 (pol, f') = Ok (t3, st3) /\ node_buf t3 = node_buf t1.
+Proof.
+  intros Hw Hf f t1 st1 Ha Hs Hl d rest t2 Hd Hp.
+  destruct (file_preserved_and_fixed pol t Hw Hf f t1 st1 Ha Hs Hl d rest Hd) as (t2' & H1 & _ & H3).
+  rewrite H1 in Hp. injection Hp as <-. exact H3.
+Qed.
+
+Theorem sec_semantic_preservation pol t : wf pol t -> is_sec t ->
+  forall f t1 st1, asm' t (pol, f) = Ok (t1, st1) -> small t1 -> laid t1 ->
+  forall d rest i, (height t1 <= d)%nat ->
+  exists t2, psec d pol (node_buf t1 ++ rest) i = Ok (t2, pol) /\ deep t2 = deep t.
+Proof.
+  intros Hw Hf f t1 st1 Ha Hs Hl d rest i Hd.
+  destruct (sec_preserved_and_fixed pol t Hw Hf f t1 st1 Ha Hs Hl d rest i Hd) as (t2 & H1 & H2 & _). eauto.
+Qed.
+
+Theorem sec_save_fixed_point pol t : wf pol t -> is_sec t ->
+  forall f t1 st1, asm' t (pol, f) = Ok (t1, st1) -> small t1 -> laid t1 ->
+  forall d rest i t2, (height t1 <= d)%nat ->
+  psec d pol (node_buf t1 ++ rest) i = Ok (t2, pol) ->
+  forall f', exists t3 st3, asm' t2 (pol, f') = Ok (t3, st3) /\ node_buf t3 = node_buf t1.
+Proof.
+  intros Hw Hf f t1 st1 Ha Hs Hl d rest i t2 Hd Hp.
+  destruct (sec_preserved_and_fixed pol t Hw Hf f t1 st1 Ha Hs Hl d rest i Hd) as (t2' & H1 & _ & H3).
+  rewrite H1 in Hp. injection Hp as <-. exact H3.
+Qed.
+
+(* what Assemble wrote is an exact fixed point of Assemble *)
+Theorem assembled_is_fixed pol t : wf pol t ->
+  forall f t1 st1, asm' t (pol, f) = Ok (t1, st1) -> small t1 -> laid t1 ->
+  forall f', exists f'', asm' t1 (pol, f') = Ok (t1, (pol, f'')).
+Proof.
+  intros Hw f t1 st1 Ha Hs Hl f'.
+  destruct (asm_canon pol t Hw f t1 st1 Ha Hs Hl) as (Hc & _).
+  destruct (canon_asm_fixed pol t1 Hc f') as (f'' & E & _). eauto.
+Qed.
+
+(* trees without volumes need no layout condition *)
+Fixpoint novol (n : node) : Prop :=
+  let all := fix all (l : list node) : Prop :=
+               match l with [] => True | x :: r => novol x /\ all r end in
+  match n with
+  | NSec _ _ k => all k
+  | NFile _ _ k => all k
+  | NVol _ _ _ => False
+  | NPad _ _ => True
+  end.
+
+Lemma novol_laid : forall n, novol n -> laid n.
+Proof using Type. clear_sec.
+  induction n as [h b k IH|h b k IH|h b k IH|] using node_ind'; cbn [novol laid]; intros H; try exact I; try (destruct H).
+  - induction IH as [|x r Hx Hr IHr]; [exact I|]. destruct H as [H1 H2]. split; [apply Hx; exact H1|apply IHr; exact H2].
+  - induction IH as [|x r Hx Hr IHr]; [exact I|]. destruct H as [H1 H2]. split; [apply Hx; exact H1|apply IHr; exact H2].
 Qed.
 
 End Codec.
